@@ -16,9 +16,9 @@
 //	            const and var declarations; every path must end in a return
 //	expressions literals, constants of the package (by value), == != < <= > >= && || !,
 //	            string +, field selection, composite literals of Rel, *p, len, x[k] with a
-//	            constant k (as getD: every use in the list below is guarded by a length
-//	            test), s[k:], strings.HasPrefix/HasSuffix, calls of and method calls on
-//	            other translated functions
+//	            constant k (as getD: the translator checks that a test `len(x) >= k+1` holds
+//	            on the path, see `lengths` below), s[k:], strings.HasPrefix/HasSuffix, calls
+//	            of and method calls on other translated functions
 //
 // Receiver-mutating methods (state threading). A method with a pointer receiver `*Type` or
 // `*Schema` whose body assigns through the receiver is translated with the receiver as a
@@ -82,6 +82,145 @@
 //	            returns on some path are repeated in each branch that goes on; a `:=` that shadows
 //	            a variable of an enclosing block of the same function is therefore rejected.
 //	            A method without result returns the receiver at the end of its body and at `return`.
+//
+// Structures, pointers, several results, delegated calls, loops with early exit, counting loops
+// (the URL front end: `Type.Fields`, `SimpleURL.Path`, `NewParams`, `NewURL`, `NewSimpleURL`).
+// Reading conventions (trusted):
+//
+//	structs     A struct type (of the package or of the standard library) other than Rel, Type, Schema,
+//	            Attr, Filter, Error and time.Time, all of whose fields have types of the subset, is printed
+//	            as a Lean structure `Gen.<Name>` (`Gen.<pkg>_<Name>` for another package) with one field
+//	            per Go field, in order: the Go name with its first letter in lower case (`_` appended when
+//	            that is a Lean keyword: Include -> include_, Type -> type_). `[]T` is `List T`,
+//	            `map[string]T` is `GoMap T`. `T{…}` is the structure with the fields given and the zero
+//	            value for the others (zero values: "", false, 0, [], none, the zero structure; a nil
+//	            and an empty slice or map are both `[]`).
+//	            A local variable declared `v := T{…}` or `v := &T{…}` (T a generated structure) is a
+//	            value that is threaded like the receiver above: `v.f = e` re-binds v, `v.m[k] = e` is
+//	            `GoMap.set` (accepted where the map is known to be non-nil: a field given as a map literal
+//	            in the declaration, or after `if v.m == nil { v.m = map…{} }` / `v.m = map…{}`). The
+//	            translator checks that v is used only as the root of a field selection or as a result
+//	            of `return`: no copy of the structure and no second pointer to it exist, so reading it as
+//	            a value is exact (not modelled: a slice or map stored into a field stays shared with its
+//	            source, as for the receiver above).
+//	pointers    A pointer to a generated structure, and `*Filter`, is an `Option`: nil is `none`.
+//	            Parameters, fields and results of such types are Options; a pointer RECEIVER is the value
+//	            it points to (a call on a nil receiver is outside the model), as `*Schema` / `*Type` are.
+//	            `if p == nil { … }` (every path of the block returns, no else) on a pointer variable p that
+//	            is assigned nowhere is `match p_ with | none => … | some p_ => <the statements after the if>`:
+//	            there p is read as the value it points to; `p.f` and `p.M()` on a pointer that is not known
+//	            to be non-nil in this way are rejected. A local declared `v := &T{…}` is non-nil: as a
+//	            result `v` is `some v_`. `&T{…}` used as a value is `some …` (a fresh pointer).
+//	stand-ins   `Filter` (its field Val holds an arbitrary value) is carried as a `GoString`, as in the
+//	            model (Model/Url.lean: the canonical JSON text of the filter); `Filter{}` is the empty
+//	            text. A filter can only be copied, be nil, be created by `&Filter{}` and be the target of
+//	            json.Unmarshal. `any` is the model's `PageVal` (an int or a string): a string or int
+//	            expression stored into a place of type `any` is wrapped (`PageVal.str` / `PageVal.int`),
+//	            any other type is rejected; a translated function therefore speaks about `any` values
+//	            that hold an int or a string only.
+//	results     A function with several results returns the tuple of them (`(*URL, error)` is
+//	            `Option Gen.URL × Res Unit`); each result of `return a, b` is read at its declared type
+//	            (the untyped nil: `none` for a pointer, `Res.ok ()` for an error, `[]` for a map or slice).
+//	errors      (addition) An expression of the package's struct type `Error` used where an `error` is
+//	            expected (the calls `NewErr…(…)`) is `Res.err`: a struct value converted to an interface
+//	            is never nil; the payload is not modelled; the arguments must be expressions of the subset
+//	            (no effect, no panic) and their value is dropped.
+//	if-init     `if init; c { A } else { B }` is `init` followed by `if c { A } else { B }`; a variable
+//	            declared by init must not hide a variable of an enclosing block (but see `scoping`).
+//	tuples      `a, ok = m[k]` and `a, ok := m[k]` (m a map with string keys): a is the value of the
+//	            entry or the zero value, ok whether the key is present (`GoMap.get?`); `m[k]` alone is the
+//	            value or the zero value. `a, err = f(…)` with f a translated function of the package (or a
+//	            delegated one) with two results binds both components. The targets are variables or
+//	            places reached from a local structure.
+//	lengths     Along each path the translator keeps the facts `len(T) >= k` and `T != ""` it learns from
+//	            the conditions of the enclosing `if`s and `switch` cases (`len(T) == k`, `>=`, `>`, `!= 0`,
+//	            `T != ""`, their negations on the path where the condition is false, both sides of `&&`
+//	            when true and of `||` when false; in a switch without tag also the negation of the earlier
+//	            cases), for T built from variables, field selections and `url.Values.Get`. An assignment
+//	            to a variable or place forgets the facts that mention it; a branch or loop that has been
+//	            joined forgets the facts about what it assigns, a loop also at its entry.
+//	            `x[k]` (k constant) needs `len(x) >= k+1` (so these reads are checked by the translator,
+//	            no longer by eye); `xs[len(xs)-c]` needs `len(xs) >= c` and is `xs.getD (xs.length - c) zero`;
+//	            `s[a : len(s)-c]` on a string needs `len(s) >= a+c` and is `(s.take (s.length - c)).drop a`;
+//	            a byte `s[k]` of a string needs `len(s) >= k+1` and is `s.getD k 0` (a `UInt8`, as the
+//	            constants of type byte are). Without the fact the function is untranslated (for a byte
+//	            read of a string see `panics`).
+//	stdlib      `url.Values` is `GoMap (List GoString)`; `vs.Get(k)` is `firstVal ((GoMap.get? vs k).getD [])`
+//	            (the first value of the key, "" without one); `strings.Join(xs, sep)` is `joinWith sep xs`;
+//	            `n, err := strconv.Atoi(s)` is the model's `parseInt 64 s` (`int` has 64 bits): err is nil
+//	            iff it is `some`, n is then its value; n may be read only where err is known to be nil
+//	            (the else branch of `if err != nil`), the value Atoi returns with an error is not modelled.
+//	delegated   Calls that are taken as parameters of the translated function (appended to its own
+//	            parameters in order of first use); each is a deterministic function of its arguments:
+//	            `u.Query()` on a `*url.URL`: `Query' : Gen.url_URL → GoMap (List GoString)`;
+//	            each call site `json.Unmarshal([]byte(e), p)` (numbered k = 0, 1, … in source order):
+//	            `unmarshal<k>' : GoString → τ → τ × Res Unit` where τ is the type of the target - the place for
+//	            `p = &place`, the Option (pointer and pointee together) for a place p of pointer type -, a
+//	            place reached from a local structure: the call gives the new value of the target, which is
+//	            stored back, and the error (accepted in the form `err = json.Unmarshal(…)` only);
+//	            a function of the package listed in `delegatedFuncs` (NewParams) while it is itself outside
+//	            the subset: `NewParams' : <its signature>` (once it translates, the call is `Gen.NewParams`).
+//	maps        (addition) in `for k := range m` / `for k, v := range m` k is the key (`elem_.1`), `m[k]` and v
+//	            the value (`elem_.2`) of the current entry.
+//	loops       (addition) Loops over slices and maps nest (the elements are elem_, elem1_, …); the body
+//	            may not assign a collection `xs` that is being ranged over with an index variable (`xs[i]`
+//	            is read as the element the loop holds) nor store into a map that is being ranged over
+//	            (but see `map stores`).
+//	            A loop whose body contains `return` in another shape than `if c { return e }`, or `break`,
+//	            or `continue`, is translated in block mode: a fold whose state carries, besides the
+//	            variables assigned in the body that are declared outside it, `brk' : Bool` when the body
+//	            has a `break` of this loop and `ret' : Option <results>` when it has a `return` (or a read
+//	            that may panic, see `panics`); a step does nothing once brk' is true or ret' is `some`;
+//	            in the body `return e` yields ret' = `some e`, `break` yields brk' = true, the end of the
+//	            body and `continue` yield the state with brk' = false and ret' = `none`; the statements
+//	            that follow an `if` one branch of which leaves in such a way are repeated in the branches
+//	            that go on. After the loop: `match ret' with | some r => r | none => <the statements
+//	            after the loop>` (inside an enclosing loop in block mode `some r` leaves that loop too);
+//	            brk' is dropped. Not accepted in receiver-mutating methods; a `break` inside a `switch`
+//	            and labels are outside the subset.
+//	            What is known (lengths, non-nil maps) about a variable that the body assigns on a path
+//	            which reaches another iteration (a block that ends in `break` or `return` does not) is
+//	            forgotten when the loop is entered.
+//	builtins    `make([]T, 0, c)` is `[]` (c must be a sum of `len(…)` and constants: it has no effect);
+//	            `make([]T, len(e))` is `List.replicate e.length zero`. The statement `copy(dst, src)` gives
+//	            dst the value `src.take dst.length ++ dst.drop src.length` (the first min(len) elements are
+//	            overwritten; the two slices are assumed not to overlap); `sort.Strings(xs)` gives xs the
+//	            value `Typ.sortStrings xs` (the model's insertion sort: the sorted permutation is unique for
+//	            the bytewise order of Go strings). dst / xs: a local variable, a place reached from the
+//	            receiver or a local structure, or an element `m[k]` of a map that is itself such a place
+//	            (`GoMap.set m k …`).
+//	nil slices  A local slice variable that is assigned `nil` or compared with nil is an
+//	            `Option (List T)`: `nil` is `none`, any other value assigned is `some …`, `v != nil` is
+//	            `isSome`, every other read of v is `v.getD []` (a nil slice reads as the empty one).
+//	map stores  (addition) Inside `for k := range m` the store `m[k] = v` at the key of the current entry
+//	            (and copy / sort.Strings on `m[k]`) is accepted: the set of keys does not change, the loop
+//	            runs over the entries m had when it started, and in such a loop `m[k]` is read in the
+//	            current state (`(GoMap.get? m k).getD zero`) rather than as the value the loop holds.
+//	counting    `for i := len(X) - 1; i >= 0; i-- { … }` is a fold over `(List.range X.length).reverse`;
+//	loops       `for i := 0; i < len(X); i++ { … }` is a fold over `List.range X.length`,
+//	            `for j := i + 1; j < len(X); j++ { … }` (i an index variable of an enclosing loop) over
+//	            `List.range' (i+1) (X.length - (i+1))`, and `for i := range X { … }` whose body uses i as a
+//	            value over `List.range X.length` - X a slice-valued expression, its length taken when the
+//	            loop starts, i a `Nat` (`Int.ofNat i` where it is used as an int) that the body does not
+//	            assign. The body may change X in one way only: `X = append(X[:a], X[b:]...)` with
+//	            (a, b) = (i, i+1) or (i-1, i), which removes one element - in an up loop from 0 the condition
+//	            `i < len(X)` is then evaluated again before every step (the length never grows and i grows
+//	            by one, so `X.length` steps at the start suffice); in a down loop at most one such
+//	            statement, not inside a nested loop (so that i stays below the length); in the two other
+//	            forms not at all. At the start of each iteration the translator knows `i < len(X)`, until
+//	            X is assigned; with it `X[i]` is `X.getD i zero`, `X[i-1]` (where `i > 0` is known from an
+//	            enclosing condition) `X.getD (i-1) zero`, `X[:e]` / `X[e:]` for e = i, i+1, i-1 are
+//	            `take` / `drop`. Any other index or bound leaves the function untranslated.
+//	panics      A byte read `s[k]` of a string whose length the translator cannot establish makes the
+//	            function end with a panic when it is out of range: the statement whose own expressions
+//	            contain the read (not under the right operand of `&&` / `||`) is guarded,
+//	            `if k < s.length then <statement and what follows> else <panic value>`, the panic value
+//	            being the zero value of every result with `Res.panic` for the error (the function's last
+//	            result must be an error); inside a loop the panic value is returned through ret'.
+//	scoping     (addition) outside receiver-mutating methods a `:=` (also in an `if` init, a loop
+//	            header) may hide a variable of an enclosing block provided the hidden variable is not used
+//	            after the block of the new one ends (the `let` of the new one stays visible until the end of
+//	            the rendered statement list).
 package main
 
 import (
@@ -111,6 +250,8 @@ var targets = []string{
 	"Schema.AddType", "Schema.RemoveType",
 	"Schema.AddAttr", "Schema.RemoveAttr", "Schema.AddRel", "Schema.RemoveRel",
 	"Schema.AddTwoWayRel",
+	// the URL front end (structures generated from the struct declarations, header: structs)
+	"Type.Fields", "SimpleURL.Path", "NewParams", "NewURL", "NewSimpleURL",
 }
 
 var (
@@ -155,8 +296,17 @@ func bytesLit(s string) string {
 func leanType(t types.Type, n ast.Node) string {
 	switch u := t.(type) {
 	case *types.Pointer:
+		if optionPointer(u) {
+			return "Option (" + leanType(u.Elem(), n) + ")"
+		}
 		return leanType(u.Elem(), n)
 	case *types.Named:
+		if isPkgNamed(u, "Filter") {
+			return "GoString" // stand-in: the canonical JSON text of the value (header: stand-ins)
+		}
+		if g := genStructOf(u, n); g != nil {
+			return "Gen." + g.name
+		}
 		switch u.Obj().Name() {
 		case "Rel":
 			return "Rel"
@@ -194,13 +344,23 @@ func leanType(t types.Type, n ast.Node) string {
 		if nm, ok := u.Elem().(*types.Named); ok && nm.Obj().Name() == "Type" {
 			return "List Typ"
 		}
+		if b, ok := u.Elem().(*types.Basic); !ok || b.Kind() != types.Uint8 {
+			return "List (" + leanType(u.Elem(), n) + ")"
+		}
 	case *types.Map:
 		if isString(u.Key()) {
 			if nm, ok := u.Elem().(*types.Named); ok && (nm.Obj().Name() == "Attr" || nm.Obj().Name() == "Rel") {
 				return "GoMap " + nm.Obj().Name()
 			}
+			if !isString(u.Elem()) {
+				return "GoMap (" + leanType(u.Elem(), n) + ")"
+			}
 		}
 		return "List (GoString × GoString)"
+	case *types.Interface:
+		if u.Empty() {
+			return "PageVal" // header: `any`
+		}
 	case *types.Tuple:
 		parts := make([]string, u.Len())
 		for i := 0; i < u.Len(); i++ {
@@ -210,6 +370,137 @@ func leanType(t types.Type, n ast.Node) string {
 	}
 	fail(n, "type %s is outside the subset", t)
 	return ""
+}
+
+// ---------- generated structures (header: structs) ----------
+
+type genField struct {
+	goName, lean string
+	t            types.Type
+}
+
+type genStruct struct {
+	name   string
+	pos    string
+	fields []genField
+}
+
+var (
+	genStructs = map[string]*genStruct{}
+	genOrder   []string
+	genBusy    = map[string]bool{}
+	genBad     = map[string]bool{}
+)
+
+// Lean keywords that a lower-cased Go field name may collide with
+var leanKeywords = map[string]bool{"include": true, "type": true, "from": true, "to": true, "end": true, "at": true, "in": true,
+	"do": true, "if": true, "then": true, "else": true, "let": true, "have": true, "show": true, "open": true, "where": true,
+	"with": true, "fun": true, "match": true, "instance": true, "structure": true, "class": true, "def": true, "theorem": true,
+	"namespace": true, "section": true, "variable": true, "universe": true, "import": true, "deriving": true, "mutual": true,
+	"private": true, "protected": true, "partial": true, "unsafe": true, "macro": true, "syntax": true, "by": true, "for": true,
+	"return": true, "local": true, "attribute": true, "export": true, "example": true, "axiom": true, "abbrev": true,
+	"inductive": true, "extends": true, "using": true, "calc": true, "this": true, "mut": true, "break": true, "continue": true,
+	"try": true, "catch": true, "finally": true, "unless": true, "opaque": true, "nomatch": true, "nofun": true, "sorry": true}
+
+func fieldName(goName string) string {
+	f := lowerFirst(goName)
+	if leanKeywords[f] {
+		f += "_"
+	}
+	return f
+}
+
+func isPkgNamed(n *types.Named, name string) bool {
+	return n.Obj().Name() == name && n.Obj().Pkg() != nil && n.Obj().Pkg().Name() == "jsonapi"
+}
+
+func genName(n *types.Named) string {
+	if n.Obj().Pkg() == nil || n.Obj().Pkg().Name() == "jsonapi" {
+		return n.Obj().Name()
+	}
+	return n.Obj().Pkg().Name() + "_" + n.Obj().Name()
+}
+
+func derefNamed(t types.Type) (*types.Named, bool) {
+	if p, ok := t.(*types.Pointer); ok {
+		t = p.Elem()
+	}
+	n, ok := t.(*types.Named)
+	return n, ok
+}
+
+// the struct types that keep their hand-written counterpart of the model (or are outside the subset)
+var fixedStructs = map[string]bool{"Rel": true, "Schema": true, "Type": true, "Attr": true, "Filter": true, "Error": true, "time_Time": true}
+
+// genStructOf: the generated structure of the named struct type u (nil when u is not a struct,
+// keeps a hand-written counterpart, or has a field outside the subset).
+func genStructOf(u *types.Named, n ast.Node) *genStruct {
+	st, ok := u.Underlying().(*types.Struct)
+	if !ok || u.TypeArgs().Len() > 0 {
+		return nil
+	}
+	name := genName(u)
+	if fixedStructs[name] || genBad[name] {
+		return nil
+	}
+	if g := genStructs[name]; g != nil {
+		return g
+	}
+	if genBusy[name] {
+		return nil
+	}
+	genBusy[name] = true
+	defer delete(genBusy, name)
+	g := &genStruct{name: name}
+	if u.Obj().Pos().IsValid() {
+		p := fset.Position(u.Obj().Pos())
+		file := p.Filename
+		if u.Obj().Pkg() != nil && u.Obj().Pkg().Name() != "jsonapi" {
+			file = u.Obj().Pkg().Path() + "/" + file[strings.LastIndex(file, "/")+1:]
+		}
+		g.pos = fmt.Sprintf("%s:%d", file, p.Line)
+	}
+	okAll := func() (ok bool) {
+		defer func() {
+			if e := recover(); e != nil {
+				if _, isU := e.(unsupported); !isU {
+					panic(e)
+				}
+				ok = false
+			}
+		}()
+		for i := 0; i < st.NumFields(); i++ {
+			f := st.Field(i)
+			if f.Embedded() {
+				return false
+			}
+			if _, isFn := f.Type().Underlying().(*types.Signature); isFn {
+				return false
+			}
+			leanType(f.Type(), n)
+			g.fields = append(g.fields, genField{f.Name(), fieldName(f.Name()), f.Type()})
+		}
+		return true
+	}()
+	if !okAll {
+		genBad[name] = true
+		return nil
+	}
+	genStructs[name] = g
+	genOrder = append(genOrder, name)
+	return g
+}
+
+// optionPointer: a pointer that is rendered as an Option (to a generated structure or a stand-in)
+func optionPointer(p *types.Pointer) bool {
+	n, ok := p.Elem().(*types.Named)
+	if !ok {
+		return false
+	}
+	if isPkgNamed(n, "Filter") {
+		return true
+	}
+	return genStructOf(n, nil) != nil
 }
 
 func zeroOf(t types.Type, n ast.Node) string {
@@ -226,6 +517,28 @@ func zeroOf(t types.Type, n ast.Node) string {
 		return "([] : List GoString)"
 	case "Typ":
 		return "Typ.empty"
+	case "Res Unit":
+		return "(Res.ok () : Res Unit)"
+	case "Rel":
+		return "({ fromType := [], fromName := [], toOne := false, toType := [], toName := [], fromOne := false } : Rel)"
+	case "Attr":
+		return "({ name := [], ty := 0, nullable := false } : Attr)"
+	}
+	lt := leanType(t, n)
+	if strings.HasPrefix(lt, "Option ") {
+		return "(none : " + lt + ")"
+	}
+	if strings.HasPrefix(lt, "List ") || strings.HasPrefix(lt, "GoMap ") {
+		return "([] : " + lt + ")"
+	}
+	if nm, ok := derefNamed(t); ok {
+		if g := genStructs[genName(nm)]; g != nil {
+			parts := []string{}
+			for _, f := range g.fields {
+				parts = append(parts, f.lean+" := "+zeroOf(f.t, n))
+			}
+			return "({ " + strings.Join(parts, ", ") + " } : Gen." + g.name + ")"
+		}
 	}
 	fail(n, "no zero value for %s", t)
 	return ""
@@ -273,6 +586,50 @@ type tr struct {
 	loopNoResize     bool // an assignment to the ranged slice is not accepted here
 	noImplicitReturn bool // inside a loop body: falling off the end is not a return
 	nilIsError       bool // the expression being translated is expected to be of type `error`
+	// local structures, pointers, delegated calls, loops with return (header: structs … loops)
+	owned        map[types.Object]int  // locals declared `v := T{…}` (1) or `v := &T{…}` (2) of a generated structure
+	ptrValue     map[types.Object]bool // pointer variables read as the value they point to (receiver, after `if p == nil { return }`)
+	extra        []string              // parameters added for the delegated calls, in order of first use
+	extraSeen    map[string]bool
+	unmarshals   map[*ast.CallExpr]int // call sites of json.Unmarshal -> number
+	results      []types.Type          // the result types of the function
+	resultLean   string
+	lenAtLeast   map[string]int64                 // facts of the current path: len(<source text>) >= k
+	nonEmpty     map[string]bool                  // <source text> != ""
+	errNil       map[types.Object]bool            // the error variable is nil
+	guardedBy    map[types.Object]types.Object    // value results of strconv.Atoi: readable only where the error is nil
+	outer        []loopSave                       // the enclosing element loops (innermost last)
+	exit         *exitCtx                         // inside a loop translated in block mode (early exit, break, continue)
+	inSwitch     int                              // inside a switch of the current loop body: `break` would leave the switch
+	idxVars      map[types.Object]bool            // index variables of counting loops (Nat in Lean)
+	idxLt        map[string]map[types.Object]bool // facts: the index variable is < len(<source text>)
+	idxPos       map[types.Object]bool            // facts: the index variable is > 0
+	nilable      map[types.Object]bool            // slice variables that are assigned or compared with nil
+	panicSites   map[ast.Node]bool                // reads whose range is not established: they end the function with a panic
+	guarded      map[ast.Node]bool                // panic sites covered by the guard of the current statement
+	keyStores    bool                             // the body of the current map loop stores into the ranged map at the loop key
+	loopDepth    int
+	typedResults bool                // the results need exprT (a pointer, an `any`, an error built from an Error value)
+	parentSel    map[*ast.Ident]bool // identifiers that are the X of a selector expression
+	clauseExprs  []ast.Expr          // the case conditions of the switch last read by clauses (nil: no single condition)
+}
+
+type exitCtx struct {
+	vars           []string
+	hasBrk, hasRet bool
+	depth          int
+}
+
+// restart: a read whose range cannot be established was met; the function is translated again
+// with the site recorded (it then ends the function with a panic)
+type restart struct{}
+
+type loopSave struct {
+	slice     string
+	key, val  types.Object
+	elem      string
+	isMap     bool
+	keyStores bool
 }
 
 // ---------- state threading: places, indices, facts of the current path ----------
@@ -301,6 +658,40 @@ func fieldOf(structName, field string) string {
 	return ""
 }
 
+// fieldOfT: as fieldOf, for the struct type (or pointer to it) t, generated structures included.
+func fieldOfT(t types.Type, field string) string {
+	if n, ok := derefNamed(t); ok {
+		if g := genStructs[genName(n)]; g != nil {
+			if _, isS := n.Underlying().(*types.Struct); isS && !fixedStructs[genName(n)] {
+				for _, f := range g.fields {
+					if f.goName == field {
+						return f.lean
+					}
+				}
+				return ""
+			}
+		}
+	}
+	return fieldOf(structOf(t), field)
+}
+
+// isPtrValue: e is a pointer variable that is read as the value it points to
+func (x *tr) isPtrValue(e ast.Expr) bool {
+	for {
+		p, ok := e.(*ast.ParenExpr)
+		if !ok {
+			break
+		}
+		e = p.X
+	}
+	id, ok := e.(*ast.Ident)
+	if !ok {
+		return false
+	}
+	obj := info.Uses[id]
+	return obj != nil && (x.ptrValue[obj] || x.owned[obj] == 2)
+}
+
 // rooted reports whether e is the receiver or a field / element reached from it.
 func (x *tr) rooted(e ast.Expr) bool {
 	for {
@@ -314,7 +705,7 @@ func (x *tr) rooted(e ast.Expr) bool {
 		case *ast.IndexExpr:
 			e = v.X
 		case *ast.Ident:
-			return x.recvObj != nil && info.Uses[v] == x.recvObj
+			return (x.recvObj != nil && info.Uses[v] == x.recvObj) || (info.Uses[v] != nil && x.owned[info.Uses[v]] != 0)
 		default:
 			return false
 		}
@@ -334,13 +725,16 @@ func (x *tr) place(e ast.Expr) place {
 	case *ast.StarExpr:
 		return x.place(v.X)
 	case *ast.Ident:
-		if x.recvObj != nil && info.Uses[v] == x.recvObj {
+		if (x.recvObj != nil && info.Uses[v] == x.recvObj) || (info.Uses[v] != nil && x.owned[info.Uses[v]] != 0) {
 			r := local(v.Name)
 			return place{r, func(val string) string { return "let " + r + " := " + val }}
 		}
 	case *ast.SelectorExpr:
 		if tv, ok := info.Types[v.X]; ok {
-			if f := fieldOf(structOf(tv.Type), v.Sel.Name); f != "" {
+			if f := fieldOfT(tv.Type, v.Sel.Name); f != "" {
+				if pt, isP := tv.Type.(*types.Pointer); isP && optionPointer(pt) && !x.isPtrValue(v.X) {
+					fail(v, "%s may be nil", types.ExprString(v.X))
+				}
 				p := x.place(v.X)
 				return place{"(" + p.get + ")." + f, func(val string) string { return p.put("{ " + p.get + " with " + f + " := " + val + " }") }}
 			}
@@ -497,12 +891,52 @@ func (x *tr) facts() func() {
 		nn[k] = v
 	}
 	dirty := x.loopDirty
+	la, ne, en := map[string]int64{}, map[string]bool{}, map[types.Object]bool{}
+	il, ip := map[string]map[types.Object]bool{}, map[types.Object]bool{}
+	for k, m := range x.idxLt {
+		il[k] = map[types.Object]bool{}
+		for o, v := range m {
+			il[k][o] = v
+		}
+	}
+	for o, v := range x.idxPos {
+		ip[o] = v
+	}
+	for k, v := range x.lenAtLeast {
+		la[k] = v
+	}
+	for k, v := range x.nonEmpty {
+		ne[k] = v
+	}
+	for k, v := range x.errNil {
+		en[k] = v
+	}
 	return func() {
 		x.nonNil = map[string]bool{}
 		for k, v := range nn {
 			x.nonNil[k] = v
 		}
 		x.loopDirty = dirty
+		x.lenAtLeast, x.nonEmpty, x.errNil = map[string]int64{}, map[string]bool{}, map[types.Object]bool{}
+		x.idxLt, x.idxPos = map[string]map[types.Object]bool{}, map[types.Object]bool{}
+		for k, m := range il {
+			x.idxLt[k] = map[types.Object]bool{}
+			for o, v := range m {
+				x.idxLt[k][o] = v
+			}
+		}
+		for o, v := range ip {
+			x.idxPos[o] = v
+		}
+		for k, v := range la {
+			x.lenAtLeast[k] = v
+		}
+		for k, v := range ne {
+			x.nonEmpty[k] = v
+		}
+		for k, v := range en {
+			x.errNil[k] = v
+		}
 	}
 }
 
@@ -630,7 +1064,18 @@ func (x *tr) noShadow(id *ast.Ident) {
 	}
 	if _, outer := obj.Parent().Parent().LookupParent(id.Name, token.NoPos); outer != nil {
 		if _, isVar := outer.(*types.Var); isVar && outer.Pos() >= x.fn.Pos() && outer.Pos() <= x.fn.End() {
-			fail(id, "%s shadows a variable of an enclosing block", id.Name)
+			if x.recvObj != nil {
+				fail(id, "%s shadows a variable of an enclosing block", id.Name)
+			}
+			// the hidden variable must not be used after the block of the new one ends: the `let` of the
+			// new one stays visible, in the Lean rendering, in the statements that follow that block
+			end := obj.Parent().End()
+			ast.Inspect(x.fn.Body, func(n ast.Node) bool {
+				if u, ok := n.(*ast.Ident); ok && info.Uses[u] == outer && u.Pos() > end {
+					fail(id, "%s shadows a variable of an enclosing block that is used afterwards", id.Name)
+				}
+				return true
+			})
 		}
 	}
 }
@@ -664,7 +1109,15 @@ func nilInit(s *ast.IfStmt) (string, bool) {
 // effect translates a statement that writes through the receiver into the `let` lines that
 // re-bind it ("" for the nil-map initialisation); ok is false for any other statement.
 func (x *tr) effect(st ast.Stmt, ind string) (out string, ok bool) {
-	if x.recvObj == nil {
+	if as, isAs := st.(*ast.AssignStmt); isAs {
+		if out, ok := x.multiAssign(as, ind); ok {
+			return out, true
+		}
+	}
+	if out, ok := x.builtinStmt(st, ind); ok {
+		return out, true
+	}
+	if x.recvObj == nil && len(x.owned) == 0 {
 		return "", false
 	}
 	switch s := st.(type) {
@@ -722,19 +1175,30 @@ func (x *tr) effect(st ast.Stmt, ind string) (out string, ok bool) {
 			if !x.nonNil[text] {
 				fail(s, "store into the map %s, which may be nil here", text)
 			}
-			if x.loopMap && text == x.loopSlice {
-				fail(s, "store into the map being ranged over")
-			}
+			x.checkRangedStore(ix)
 			p := x.place(ix.X)
-			return p.put("(GoMap.set " + p.get + " " + x.expr(ix.Index) + " " + x.expr(s.Rhs[0]) + ")"), true
+			line := p.put("(GoMap.set " + p.get + " " + x.expr(ix.Index) + " " + x.exprT(s.Rhs[0], info.Types[s.Lhs[0]].Type) + ")")
+			x.kill(ix.X)
+			return line, true
 		}
 		p := x.place(s.Lhs[0])
-		val := x.expr(s.Rhs[0])
+		val := x.exprT(s.Rhs[0], info.Types[s.Lhs[0]].Type)
+		x.kill(s.Lhs[0])
+		if lit, isLit := s.Rhs[0].(*ast.CompositeLit); isLit && len(lit.Elts) == 0 {
+			if _, isMap := info.Types[lit].Type.Underlying().(*types.Map); isMap {
+				defer func() { x.nonNil[types.ExprString(s.Lhs[0])] = true }()
+			}
+		}
 		if text := types.ExprString(s.Lhs[0]); (x.loopIndex || x.loopElem != "") && (text == x.loopSlice || strings.HasPrefix(x.loopSlice, text+".")) {
 			if !x.loopIndex || x.loopNoResize {
 				fail(s, "assignment to %s, which is being ranged over, on a path that goes on", text)
 			}
 			x.loopDirty = true
+		}
+		for _, o := range x.outer {
+			if text := types.ExprString(s.Lhs[0]); text == o.slice || strings.HasPrefix(o.slice, text+".") {
+				fail(s, "assignment to %s, which is being ranged over", text)
+			}
 		}
 		delete(x.nonNil, types.ExprString(s.Lhs[0]))
 		return p.put(val), true
@@ -787,6 +1251,9 @@ func (x *tr) constant(e ast.Expr) (string, bool) {
 		if tv.Type != nil && isUnsigned(tv.Type) {
 			ty = "Nat"
 		}
+		if b, isB := tv.Type.Underlying().(*types.Basic); isB && b.Kind() == types.Uint8 {
+			ty = "UInt8" // a byte of a string
+		}
 		s := tv.Value.ExactString()
 		if strings.HasPrefix(s, "-") {
 			return "(" + s + " : " + ty + ")", true
@@ -818,7 +1285,39 @@ func (x *tr) expr(e ast.Expr) string {
 				return "(Int.ofNat " + local(v.Name) + ")"
 			}
 			if x.loopElem != "" && x.loopKey != nil && obj == x.loopKey {
+				if x.loopMap {
+					return x.loopElem + ".1" // the key of the current entry of a map
+				}
 				fail(v, "the loop index is used other than to read the current element")
+			}
+			for i := len(x.outer) - 1; i >= 0; i-- {
+				o := x.outer[i]
+				if o.key != nil && obj == o.key {
+					if o.isMap {
+						return o.elem + ".1"
+					}
+					fail(v, "the loop index is used other than to read the current element")
+				}
+				if o.val != nil && obj == o.val {
+					if o.isMap {
+						return o.elem + ".2"
+					}
+					return o.elem
+				}
+			}
+			if x.idxVars[obj] {
+				return "(Int.ofNat " + local(v.Name) + ")"
+			}
+			if x.nilable[obj] {
+				return "(" + local(v.Name) + ".getD [])" // a nil slice reads as the empty one
+			}
+			if g := x.guardedBy[obj]; g != nil && !x.errNil[g] {
+				fail(v, "%s is read where %s is not known to be nil", v.Name, g.Name())
+			}
+			if x.owned[obj] == 2 {
+				if _, isSel := x.parentSel[v]; !isSel {
+					fail(v, "the local pointer %s is used as a value", v.Name)
+				}
 			}
 			if x.loopElem != "" && x.loopVal != nil && obj == x.loopVal {
 				if x.loopMap {
@@ -837,6 +1336,11 @@ func (x *tr) expr(e ast.Expr) string {
 		if v.Op == token.NOT {
 			return "(!" + x.expr(v.X) + ")"
 		}
+		if lit, isLit := v.X.(*ast.CompositeLit); isLit && v.Op == token.AND {
+			if pt, isP := info.Types[v].Type.(*types.Pointer); isP && optionPointer(pt) {
+				return "(some " + x.expr(lit) + ")" // a fresh pointer (header: pointers)
+			}
+		}
 		fail(v, "unary %s", v.Op)
 	case *ast.BinaryExpr:
 		return x.binary(v)
@@ -850,6 +1354,19 @@ func (x *tr) expr(e ast.Expr) string {
 		// field of a struct value
 		if sel, ok := info.Types[v.X]; ok {
 			t := sel.Type
+			if n, isN := derefNamed(t); isN && genStructs[genName(n)] != nil && !fixedStructs[genName(n)] {
+				f := fieldOfT(t, v.Sel.Name)
+				if f == "" {
+					fail(v, "selector %s", v.Sel.Name)
+				}
+				if pt, isP := t.(*types.Pointer); isP && optionPointer(pt) && !x.isPtrValue(v.X) {
+					fail(v, "%s may be nil", types.ExprString(v.X))
+				}
+				if id, isId := v.X.(*ast.Ident); isId {
+					x.parentSel[id] = true
+				}
+				return "(" + x.expr(v.X) + ")." + f
+			}
 			if p, isP := t.(*types.Pointer); isP {
 				t = p.Elem()
 			}
@@ -894,6 +1411,37 @@ func (x *tr) expr(e ast.Expr) string {
 		if n, ok := t.(*types.Named); ok && n.Obj().Name() == "Type" && len(v.Elts) == 0 {
 			return "Typ.empty"
 		}
+		if n, ok := t.(*types.Named); ok && isPkgNamed(n, "Filter") && len(v.Elts) == 0 {
+			return "([] : GoString)" // header: stand-ins
+		}
+		if n, ok := t.(*types.Named); ok {
+			if g := genStructOf(n, v); g != nil {
+				given := map[string]string{}
+				for _, el := range v.Elts {
+					kv, ok := el.(*ast.KeyValueExpr)
+					if !ok {
+						fail(el, "positional composite literal")
+					}
+					for _, f := range g.fields {
+						if f.goName == kv.Key.(*ast.Ident).Name {
+							given[f.goName] = x.exprT(kv.Value, f.t)
+						}
+					}
+				}
+				parts := []string{}
+				for _, f := range g.fields {
+					val, ok := given[f.goName]
+					if !ok {
+						val = zeroOf(f.t, v)
+					}
+					parts = append(parts, f.lean+" := "+val)
+				}
+				return "({ " + strings.Join(parts, ", ") + " } : Gen." + g.name + ")"
+			}
+		}
+		if lt := leanType(t, v); len(v.Elts) == 0 && (strings.HasPrefix(lt, "GoMap ") || strings.HasPrefix(lt, "List ")) && lt != "List (GoString × GoString)" {
+			return "([] : " + lt + ")"
+		}
 		if _, ok := t.Underlying().(*types.Map); ok {
 			parts := []string{}
 			for _, el := range v.Elts {
@@ -904,12 +1452,56 @@ func (x *tr) expr(e ast.Expr) string {
 		}
 		fail(v, "composite literal of %s", t)
 	case *ast.IndexExpr:
-		if x.loopElem != "" && x.loopKey != nil {
+		if x.loopElem != "" && x.loopKey != nil && !x.keyStores {
 			if k, ok := v.Index.(*ast.Ident); ok && types.ExprString(v.X) == x.loopSlice && info.Uses[k] == x.loopKey {
 				if x.loopMap {
 					return x.loopElem + ".2"
 				}
 				return x.loopElem
+			}
+		}
+		for i := len(x.outer) - 1; i >= 0; i-- {
+			o := x.outer[i]
+			if k, ok := v.Index.(*ast.Ident); ok && o.key != nil && !o.keyStores && types.ExprString(v.X) == o.slice && info.Uses[k] == o.key {
+				if o.isMap {
+					return o.elem + ".2"
+				}
+				return o.elem
+			}
+		}
+		if mt, ok := info.Types[v.X].Type.Underlying().(*types.Map); ok && isString(mt.Key()) && strings.HasPrefix(leanType(info.Types[v.X].Type, v), "GoMap ") {
+			// m[k] read: the value of the entry, or the zero value
+			return "((GoMap.get? " + x.expr(v.X) + " " + x.expr(v.Index) + ").getD " + zeroOf(mt.Elem(), v) + ")"
+		}
+		if sl, ok := info.Types[v.X].Type.Underlying().(*types.Slice); ok && x.recvObj == nil {
+			if ix, inRange := x.natIndex(v.Index, types.ExprString(v.X)); inRange {
+				return "(" + x.expr(v.X) + ".getD " + ix + " " + zeroOf(sl.Elem(), v) + ")"
+			}
+		}
+		if last := lenMinus(v.Index, v.X); last > 0 {
+			// xs[len(xs)-c]: in range where len(xs) >= c is known
+			t := pureText(v.X)
+			if t == "" || x.lenAtLeast[t] < last {
+				fail(v, "%s is not known to have %d elements here", types.ExprString(v.X), last)
+			}
+			if sl, ok := info.Types[v.X].Type.Underlying().(*types.Slice); ok {
+				xs := x.expr(v.X)
+				return fmt.Sprintf("(%s.getD (%s.length - %d) %s)", xs, xs, last, zeroOf(sl.Elem(), v))
+			}
+		}
+		if isString(info.Types[v.X].Type) {
+			if tv := info.Types[v.Index]; tv.Value != nil && tv.Value.Kind() == constant.Int {
+				k, _ := constant.Int64Val(tv.Value)
+				t := pureText(v.X)
+				if (t == "" || x.lenAtLeast[t] < k+1) && !x.guarded[v] {
+					// header: panics
+					if x.panicSites[v] {
+						fail(v, "%s is not known to have %d bytes here, in a place where a panic is not rendered", types.ExprString(v.X), k+1)
+					}
+					x.panicSites[v] = true
+					panic(restart{})
+				}
+				return fmt.Sprintf("(%s.getD %d (0 : UInt8))", x.expr(v.X), k)
 			}
 		}
 		if sl, ok := info.Types[v.X].Type.Underlying().(*types.Slice); ok && x.recvObj != nil && info.Types[v.Index].Value == nil {
@@ -918,6 +1510,9 @@ func (x *tr) expr(e ast.Expr) string {
 		if _, ok := info.Types[v.X].Type.Underlying().(*types.Slice); ok {
 			if tv := info.Types[v.Index]; tv.Value != nil {
 				k, _ := constant.Int64Val(tv.Value)
+				if t := pureText(v.X); t == "" || x.lenAtLeast[t] < k+1 {
+					fail(v, "%s is not known to have %d elements here", types.ExprString(v.X), k+1)
+				}
 				return fmt.Sprintf("(%s.getD %d [])", x.expr(v.X), k)
 			}
 		}
@@ -927,6 +1522,34 @@ func (x *tr) expr(e ast.Expr) string {
 			if tv := info.Types[v.Low]; tv.Value != nil {
 				k, _ := constant.Int64Val(tv.Value)
 				return fmt.Sprintf("(%s.drop %d)", x.expr(v.X), k)
+			}
+		}
+		if isString(info.Types[v.X].Type) && v.High != nil && v.Low != nil && !v.Slice3 {
+			// s[a : len(s)-c]: in range where len(s) >= a+c is known
+			if tv := info.Types[v.Low]; tv.Value != nil && tv.Value.Kind() == constant.Int {
+				a, _ := constant.Int64Val(tv.Value)
+				if c := lenMinus(v.High, v.X); c > 0 && a >= 0 {
+					t := pureText(v.X)
+					if t == "" || x.lenAtLeast[t] < a+c {
+						fail(v, "%s is not known to have %d bytes here", types.ExprString(v.X), a+c)
+					}
+					xs := x.expr(v.X)
+					return fmt.Sprintf("((%s.take (%s.length - %d)).drop %d)", xs, xs, c, a)
+				}
+			}
+		}
+		if _, ok := info.Types[v.X].Type.Underlying().(*types.Slice); ok && x.recvObj == nil && !v.Slice3 {
+			// xs[:e] and xs[e:] with e = i, i+1, i-1 for an index variable known to be below len(xs)
+			xtext := types.ExprString(v.X)
+			if v.Low == nil && v.High != nil {
+				if b, inRange := x.natBound(v.High, xtext); inRange {
+					return "(" + x.expr(v.X) + ".take " + b + ")"
+				}
+			}
+			if v.Low != nil && v.High == nil {
+				if b, inRange := x.natBound(v.Low, xtext); inRange {
+					return "(" + x.expr(v.X) + ".drop " + b + ")"
+				}
 			}
 		}
 		if _, ok := info.Types[v.X].Type.Underlying().(*types.Slice); ok && x.recvObj != nil && !v.Slice3 {
@@ -986,6 +1609,12 @@ func (x *tr) binary(v *ast.BinaryExpr) string {
 		op := map[token.Token]string{token.EQL: " = ", token.NEQ: " ≠ "}[v.Op]
 		return "(decide (" + x.exprAs(v.X, true) + op + x.exprAs(v.Y, true) + "))"
 	}
+	if id, ok := v.X.(*ast.Ident); ok && (v.Op == token.EQL || v.Op == token.NEQ) && info.Types[v.Y].IsNil() && x.nilable[info.Uses[id]] {
+		if v.Op == token.EQL {
+			return "(" + local(id.Name) + ").isNone"
+		}
+		return "(" + local(id.Name) + ").isSome"
+	}
 	a, b := x.expr(v.X), x.expr(v.Y)
 	ta := info.Types[v.X].Type
 	switch v.Op {
@@ -1034,12 +1663,28 @@ func (x *tr) call(v *ast.CallExpr) string {
 		if f.Name == "append" && len(v.Args) == 2 && !v.Ellipsis.IsValid() {
 			return "(" + x.expr(v.Args[0]) + " ++ [" + x.expr(v.Args[1]) + "])"
 		}
-		if f.Name == "append" && len(v.Args) == 2 && v.Ellipsis.IsValid() && x.recvObj != nil {
+		if f.Name == "append" && len(v.Args) == 2 && v.Ellipsis.IsValid() {
 			return "(" + x.expr(v.Args[0]) + " ++ " + x.expr(v.Args[1]) + ")"
 		}
 		if f.Name == "make" && len(v.Args) >= 2 && leanType(info.Types[v].Type, v) == "List GoString" {
 			if tv := info.Types[v.Args[1]]; tv.Value != nil && tv.Value.ExactString() == "0" {
+				if len(v.Args) == 3 && info.Types[v.Args[2]].Value == nil && !lenSum(v.Args[2]) {
+					fail(v, "capacity of make outside the subset")
+				}
 				return "([] : List GoString)"
+			}
+		}
+		if sl, isSl := info.Types[v].Type.Underlying().(*types.Slice); f.Name == "make" && isSl && (len(v.Args) == 2 || len(v.Args) == 3) {
+			// header: make. The capacity has no effect; it must be a sum of lengths and constants (>= 0)
+			if len(v.Args) == 3 && !lenSum(v.Args[2]) {
+				fail(v, "capacity of make outside the subset")
+			}
+			lt := leanType(info.Types[v].Type, v)
+			if tv := info.Types[v.Args[1]]; tv.Value != nil && tv.Value.ExactString() == "0" {
+				return "([] : " + lt + ")"
+			}
+			if call, isCall := v.Args[1].(*ast.CallExpr); isCall && lenArgAny(call) != nil && len(v.Args) == 2 {
+				return "(List.replicate (" + x.expr(call.Args[0]) + ").length " + zeroOf(sl.Elem(), v) + ")"
 			}
 		}
 		if x.translated[f.Name] {
@@ -1079,11 +1724,50 @@ func (x *tr) call(v *ast.CallExpr) string {
 					if tv := info.Types[v.Args[1]]; tv.Value != nil && len(constant.StringVal(tv.Value)) == 1 {
 						return fmt.Sprintf("(splitOn %d %s)", constant.StringVal(tv.Value)[0], x.expr(v.Args[0]))
 					}
+				case "strings.Join":
+					return "(joinWith " + x.expr(v.Args[1]) + " " + x.expr(v.Args[0]) + ")"
 				}
 				fail(v, "call of %s.%s", pkg.Name, f.Sel.Name)
 			}
 		}
 		recvT := info.Types[f.X].Type
+		if isValues(recvT) && f.Sel.Name == "Get" && len(v.Args) == 1 {
+			// url.Values.Get: the first value of the key, "" without one
+			return "(firstVal ((GoMap.get? " + x.expr(f.X) + " " + x.expr(v.Args[0]) + ").getD []))"
+		}
+		if fn, isFn := info.Uses[f.Sel].(*types.Func); isFn {
+			sig := fn.Type().(*types.Signature)
+			if sig.Recv() == nil {
+				fail(v, "call of %s", f.Sel.Name)
+			}
+			if rn, isN := derefNamed(sig.Recv().Type()); isN {
+				full := rn.Obj().Name() + "." + fn.Name()
+				if fn.Pkg() != nil && fn.Pkg().Name() != "jsonapi" {
+					full = fn.Pkg().Path() + "." + full
+				}
+				name := leanName(rn.Obj().Name() + "." + fn.Name())
+				if _, mut := x.mutating[name]; x.translated[name] && !mut && fn.Pkg() != nil && fn.Pkg().Name() == "jsonapi" && rn.Obj().Name() != "Rel" {
+					// a translated method that does not write through its receiver
+					args := "(Gen." + name + " " + x.recvValue(f.X)
+					for i, a := range v.Args {
+						args += " " + x.exprT(a, sig.Params().At(i).Type())
+					}
+					return args + ")"
+				}
+				if delegatedMethods[full] {
+					// header: delegated calls
+					ts := []string{leanType(rn, v)}
+					for i := 0; i < sig.Params().Len(); i++ {
+						ts = append(ts, leanType(sig.Params().At(i).Type(), v))
+					}
+					args := "(" + x.addExtra(fn.Name()+"'", strings.Join(ts, " → ")+" → "+leanType(sig.Results(), v)) + " " + x.recvValue(f.X)
+					for i, a := range v.Args {
+						args += " " + x.exprT(a, sig.Params().At(i).Type())
+					}
+					return args + ")"
+				}
+			}
+		}
 		switch leanType(recvT, v) {
 		case "Time":
 			op := map[string]string{"Equal": "Time.equal", "Before": "Time.before", "After": "Time.after"}[f.Sel.Name]
@@ -1123,8 +1807,17 @@ func (x *tr) assigned(stmts []ast.Stmt, out map[string]bool) {
 	if x.mutatesList(stmts) {
 		out[x.recvName] = true
 	}
+	x.ownedWrites(stmts, out)
 	for _, s := range stmts {
 		ast.Inspect(s, func(n ast.Node) bool {
+			if c, ok := n.(*ast.CallExpr); ok && len(c.Args) > 0 {
+				id, isId := c.Fun.(*ast.Ident)
+				if (isId && id.Name == "copy") || pkgCall(c) == "sort.Strings" {
+					if t, isT := c.Args[0].(*ast.Ident); isT {
+						out[t.Name] = true
+					}
+				}
+			}
 			if a, ok := n.(*ast.AssignStmt); ok && a.Tok != token.DEFINE {
 				for _, l := range a.Lhs {
 					if id, ok := l.(*ast.Ident); ok {
@@ -1139,6 +1832,7 @@ func (x *tr) assigned(stmts []ast.Stmt, out map[string]bool) {
 
 // clauses turns a switch into (condition, body) pairs plus the default body.
 func (x *tr) clauses(s *ast.SwitchStmt) (conds []string, bodies [][]ast.Stmt, def []ast.Stmt) {
+	x.clauseExprs = nil
 	if s.Init != nil {
 		fail(s, "switch with init")
 	}
@@ -1152,6 +1846,9 @@ func (x *tr) clauses(s *ast.SwitchStmt) (conds []string, bodies [][]ast.Stmt, de
 			if b, ok := st.(*ast.BranchStmt); ok {
 				fail(b, "branch statement in switch")
 			}
+		}
+		if hasBranch(cc.Body, token.BREAK) {
+			fail(cc, "break inside a switch (it leaves the switch, not the loop)")
 		}
 		if cc.List == nil {
 			def = cc.Body
@@ -1167,6 +1864,11 @@ func (x *tr) clauses(s *ast.SwitchStmt) (conds []string, bodies [][]ast.Stmt, de
 		}
 		conds = append(conds, "("+strings.Join(alts, " || ")+")")
 		bodies = append(bodies, cc.Body)
+		if tag == "" && len(cc.List) == 1 {
+			x.clauseExprs = append(x.clauseExprs, cc.List[0])
+		} else {
+			x.clauseExprs = append(x.clauseExprs, nil)
+		}
 	}
 	return
 }
@@ -1192,12 +1894,12 @@ func (x *tr) assignOnly(stmts []ast.Stmt, vars []string, ind string) string {
 		// these statements go on after themselves: the ranged slice must keep its length
 		defer func(old bool) { x.loopNoResize = old }(x.loopNoResize)
 		x.loopNoResize = true
-		if out, ok := x.effect(stmts[0], ind); ok {
-			if out == "" {
-				return rest()
-			}
-			return out + "\n" + ind + rest()
+	}
+	if out, ok := x.effect(stmts[0], ind); ok {
+		if out == "" {
+			return rest()
 		}
+		return out + "\n" + ind + rest()
 	}
 	switch s := stmts[0].(type) {
 	case *ast.AssignStmt:
@@ -1206,7 +1908,7 @@ func (x *tr) assignOnly(stmts []ast.Stmt, vars []string, ind string) string {
 		return x.decl(s, ind) + rest()
 	case *ast.IfStmt:
 		if s.Init != nil {
-			fail(s, "if with init")
+			return x.assignOnly(append(x.splitInit(s), stmts[1:]...), vars, ind)
 		}
 		els := []ast.Stmt{}
 		if s.Else != nil {
@@ -1214,24 +1916,37 @@ func (x *tr) assignOnly(stmts []ast.Stmt, vars []string, ind string) string {
 		}
 		cond := x.expr(s.Cond)
 		undo, back := x.assume(s.Cond), x.facts()
+		x.learn(s.Cond, true)
 		thenS := x.assignOnly(s.Body.List, vars, ind+"    ")
 		undo()
 		back()
+		x.learn(s.Cond, false)
 		elseS := x.assignOnly(els, vars, ind+"    ")
 		back()
+		x.killNames(vars)
+		x.killPlaces(s.Body.List, els)
 		return "let " + tuple(vars) + " := (if " + cond + " then\n" + ind + "    (" + thenS + ")\n" +
 			ind + "  else\n" + ind + "    (" + elseS + "))\n" + ind + rest()
 	case *ast.SwitchStmt:
 		conds, bodies, def := x.clauses(s)
+		ces := x.clauseExprs
 		out := ""
 		back := x.facts()
 		for i := range conds {
+			x.learnCase(ces, i)
 			out += "if " + conds[i] + " then\n" + ind + "    (" + x.assignOnly(bodies[i], vars, ind+"    ") + ")\n" + ind + "  else "
 			back()
 		}
+		x.learnCase(ces, len(conds))
 		out += "(" + x.assignOnly(def, vars, ind+"    ") + ")"
 		back()
+		x.killNames(vars)
+		x.killPlaces(append(bodies, def)...)
 		return "let " + tuple(vars) + " := (" + out + ")\n" + ind + rest()
+	case *ast.RangeStmt:
+		return x.rangeStmt(s, nil, ind, false) + rest()
+	case *ast.ForStmt:
+		return x.forStmt(s, nil, ind, false) + rest()
 	}
 	fail(stmts[0], "statement %T", stmts[0])
 	return ""
@@ -1275,12 +1990,72 @@ func (x *tr) assign(s *ast.AssignStmt, ind string) string {
 	if x.recvObj != nil && info.Uses[id] == x.recvObj {
 		fail(s, "assignment to the receiver variable")
 	}
+	if s.Tok == token.DEFINE && info.Defs[id] != nil {
+		lit, kind := s.Rhs[0], 1
+		if u, isU := lit.(*ast.UnaryExpr); isU && u.Op == token.AND {
+			lit, kind = u.X, 2
+		}
+		if cl, isLit := lit.(*ast.CompositeLit); isLit {
+			if n, isN := info.Types[cl].Type.(*types.Named); isN && genStructOf(n, cl) != nil {
+				// header: structs (a local structure)
+				obj := info.Defs[id]
+				x.noShadow(id)
+				x.checkOwned(obj, id.Name)
+				x.owned[obj] = kind
+				for _, el := range cl.Elts {
+					if kv, isKV := el.(*ast.KeyValueExpr); isKV {
+						if ml, isML := kv.Value.(*ast.CompositeLit); isML {
+							if _, isMap := info.Types[ml].Type.Underlying().(*types.Map); isMap {
+								x.nonNil[id.Name+"."+kv.Key.(*ast.Ident).Name] = true
+							}
+						}
+					}
+				}
+				return "let " + local(id.Name) + " := " + x.expr(cl)
+			}
+		}
+	}
+	if obj := info.Uses[id]; obj != nil && x.owned[obj] != 0 {
+		fail(s, "assignment to the local structure %s", id.Name)
+	}
+	if s.Tok != token.DEFINE {
+		ranged := func(slice string) bool { return slice != "" && mentions(slice, id.Name) }
+		// (`xs[i]` is read as the element the loop holds: xs must keep its value; a loop without
+		// index variable holds copies of the elements and does not read xs again)
+		if ranged(x.loopSlice) && x.loopKey != nil {
+			fail(s, "assignment to %s, which is being ranged over", id.Name)
+		}
+		for _, o := range x.outer {
+			if ranged(o.slice) && o.key != nil {
+				fail(s, "assignment to %s, which is being ranged over", id.Name)
+			}
+		}
+	}
+	if obj := info.ObjectOf(id); obj != nil && x.nilable[obj] && (s.Tok == token.DEFINE || s.Tok == token.ASSIGN) {
+		lt := leanType(obj.Type(), s)
+		if info.Types[s.Rhs[0]].IsNil() {
+			x.kill(s.Lhs[0])
+			return "let " + local(id.Name) + " := (none : Option (" + lt + "))"
+		}
+		val := x.expr(s.Rhs[0])
+		x.kill(s.Lhs[0])
+		return "let " + local(id.Name) + " := (some " + val + " : Option (" + lt + "))"
+	}
 	switch s.Tok {
 	case token.DEFINE, token.ASSIGN:
-		return "let " + local(id.Name) + " := " + x.expr(s.Rhs[0])
+		val := ""
+		if s.Tok == token.ASSIGN {
+			val = x.exprT(s.Rhs[0], info.Types[s.Lhs[0]].Type)
+		} else {
+			val = x.expr(s.Rhs[0])
+		}
+		x.kill(s.Lhs[0])
+		return "let " + local(id.Name) + " := " + val
 	case token.ADD_ASSIGN:
 		if isString(info.Types[s.Lhs[0]].Type) {
-			return "let " + local(id.Name) + " := (" + local(id.Name) + " ++ " + x.expr(s.Rhs[0]) + ")"
+			val := x.expr(s.Rhs[0])
+			x.kill(s.Lhs[0])
+			return "let " + local(id.Name) + " := (" + local(id.Name) + " ++ " + val + ")"
 		}
 	}
 	fail(s, "assignment %s", s.Tok)
@@ -1303,6 +2078,9 @@ func (x *tr) decl(s *ast.DeclStmt, ind string) string {
 		}
 		for i, n := range vs.Names {
 			val := ""
+			if x.nilable[info.Defs[n]] {
+				fail(s, "declaration of the nil-able slice %s with var", n.Name)
+			}
 			if i < len(vs.Values) {
 				val = x.expr(vs.Values[i])
 			} else {
@@ -1317,10 +2095,38 @@ func (x *tr) decl(s *ast.DeclStmt, ind string) string {
 // block translates statements every path of which ends in a return.
 func (x *tr) block(stmts []ast.Stmt, ind string) string {
 	if len(stmts) == 0 {
+		if x.exit != nil {
+			return x.exitState("false", x.noRet()) // the end of the body of a loop in block mode
+		}
 		if x.recvObj != nil && !x.hasResult && !x.noImplicitReturn {
 			return local(x.recvName) // the end of the body of a method without result
 		}
 		fail(nil, "a path does not end in a return")
+	}
+	if ifs, ok := stmts[0].(*ast.IfStmt); ok && ifs.Init != nil {
+		// `if init; c { … }` is `init; if c { … }` (a variable declared by init is visible in the `if` only)
+		return x.block(append(x.splitInit(ifs), stmts[1:]...), ind)
+	}
+	if gs := x.guardsOf(stmts[0]); len(gs) > 0 {
+		// header: panics
+		sites := []ast.Node{}
+		conds := []string{}
+		for _, g := range gs {
+			conds = append(conds, g.cond)
+			sites = append(sites, g.site)
+			x.guarded[g.site] = true
+		}
+		back := x.facts()
+		okS := x.block(stmts, ind+"  ")
+		back()
+		for _, n := range sites {
+			delete(x.guarded, n)
+		}
+		pv := x.panicValue(stmts[0])
+		if x.exit != nil {
+			pv = x.exitState("false", "(some "+pv+")")
+		}
+		return "if (" + strings.Join(conds, " && ") + ") then\n" + ind + "  " + okS + "\n" + ind + "else\n" + ind + "  " + pv
 	}
 	rest := func() string { return x.block(stmts[1:], ind) }
 	if out, ok := x.effect(stmts[0], ind); ok {
@@ -1336,12 +2142,33 @@ func (x *tr) block(stmts []ast.Stmt, ind string) string {
 		}
 		parts := make([]string, len(s.Results))
 		for i := range s.Results {
-			parts[i] = x.expr(s.Results[i])
+			if len(x.results) == len(s.Results) && x.typedResults {
+				parts[i] = x.exprT(s.Results[i], x.results[i])
+			} else {
+				parts[i] = x.expr(s.Results[i])
+			}
 		}
+		val := "(" + strings.Join(parts, ", ") + ")"
 		if len(parts) == 1 {
-			return parts[0]
+			val = parts[0]
 		}
-		return "(" + strings.Join(parts, ", ") + ")"
+		if x.exit != nil {
+			if !x.exit.hasRet {
+				fail(s, "return in a loop that is not translated with early exit")
+			}
+			return x.exitState("false", "(some "+val+")")
+		}
+		return val
+	case *ast.BranchStmt:
+		if s.Label == nil && x.exit != nil && x.exit.depth == x.loopDepth {
+			if s.Tok == token.CONTINUE {
+				return x.exitState("false", x.noRet()) // the next iteration
+			}
+			if s.Tok == token.BREAK && x.exit.hasBrk && x.inSwitch == 0 {
+				return x.exitState("true", x.noRet()) // the remaining iterations do nothing
+			}
+		}
+		fail(s, "%s outside the subset", s.Tok)
 	case *ast.AssignStmt:
 		return x.assign(s, ind) + "\n" + ind + rest()
 	case *ast.DeclStmt:
@@ -1354,7 +2181,18 @@ func (x *tr) block(stmts []ast.Stmt, ind string) string {
 		if s.Else != nil {
 			els = elseStmts(s.Else)
 		}
-		if !returns(s.Body.List) && !returns(els) {
+		if id, isNilTest := x.nilTest(s); isNilTest && s.Else == nil && alwaysReturns(s.Body.List) {
+			// header: pointers
+			obj := info.Uses[id]
+			back := x.facts()
+			thenS := x.block(s.Body.List, ind+"  ")
+			back()
+			x.ptrValue[obj] = true
+			restS := x.block(stmts[1:], ind+"  ")
+			delete(x.ptrValue, obj)
+			return "match " + local(id.Name) + " with\n" + ind + "| none =>\n" + ind + "  " + thenS + "\n" + ind + "| some " + local(id.Name) + " =>\n" + ind + "  " + restS
+		}
+		if !x.exits(s.Body.List) && !x.exits(els) {
 			vars := map[string]bool{}
 			x.assigned(s.Body.List, vars)
 			x.assigned(els, vars)
@@ -1373,17 +2211,20 @@ func (x *tr) block(stmts []ast.Stmt, ind string) string {
 		elseB := append(append([]ast.Stmt{}, els...), stmts[1:]...)
 		cond := x.expr(s.Cond)
 		undo, back := x.assume(s.Cond), x.facts()
+		x.learn(s.Cond, true)
 		thenS := x.block(thenB, ind+"  ")
 		undo()
 		back()
+		x.learn(s.Cond, false)
 		elseS := x.block(elseB, ind+"  ")
 		back()
 		return "if " + cond + " then\n" + ind + "  " + thenS + "\n" + ind + "else\n" + ind + "  " + elseS
 	case *ast.SwitchStmt:
 		conds, bodies, def := x.clauses(s)
-		anyRet := returns(def)
+		ces := x.clauseExprs
+		anyRet := x.exits(def)
 		for _, b := range bodies {
-			anyRet = anyRet || returns(b)
+			anyRet = anyRet || x.exits(b)
 		}
 		if !anyRet {
 			vars := map[string]bool{}
@@ -1405,15 +2246,19 @@ func (x *tr) block(stmts []ast.Stmt, ind string) string {
 		back := x.facts()
 		for i := range conds {
 			b := append(append([]ast.Stmt{}, bodies[i]...), stmts[1:]...)
+			x.learnCase(ces, i)
 			out += "if " + conds[i] + " then\n" + ind + "  " + x.block(b, ind+"  ") + "\n" + ind + "else "
 			back()
 		}
 		d := append(append([]ast.Stmt{}, def...), stmts[1:]...)
+		x.learnCase(ces, len(conds))
 		dS := x.block(d, ind+"  ")
 		back()
 		return out + "\n" + ind + "  " + dS
 	case *ast.RangeStmt:
 		return x.rangeStmt(s, stmts[1:], ind, true)
+	case *ast.ForStmt:
+		return x.forStmt(s, stmts[1:], ind, true)
 	}
 	fail(stmts[0], "statement %T", stmts[0])
 	return ""
@@ -1422,8 +2267,12 @@ func (x *tr) block(stmts []ast.Stmt, ind string) string {
 // rangeStmt: `for i := range xs { ... }` reading xs[i] only, or `for _, v := range xs { ... }`.
 func (x *tr) rangeStmt(s *ast.RangeStmt, after []ast.Stmt, ind string, mustReturn bool) string {
 	lt := leanType(info.Types[s.X].Type, s)
-	if s.Tok != token.DEFINE || x.loopElem != "" || x.loopIndex || !(strings.HasPrefix(lt, "List ") || strings.HasPrefix(lt, "GoMap ")) {
+	if s.Tok != token.DEFINE || x.loopIndex || !(strings.HasPrefix(lt, "List ") || strings.HasPrefix(lt, "GoMap ")) {
 		fail(s, "range statement outside the subset")
+	}
+	nested := x.loopElem != ""
+	if nested && x.recvObj != nil {
+		fail(s, "nested loops in a receiver-mutating method")
 	}
 	_, isMap := info.Types[s.X].Type.Underlying().(*types.Map)
 	if x.recvObj != nil && !isMap && s.Value == nil {
@@ -1436,61 +2285,108 @@ func (x *tr) rangeStmt(s *ast.RangeStmt, after []ast.Stmt, ind string, mustRetur
 	if x.recvObj != nil && x.mutates(s.Body) && (!isMap || returns(s.Body.List)) {
 		fail(s, "loop that writes through the receiver outside the subset")
 	}
+	if x.recvObj == nil && !isMap && s.Value == nil {
+		if key, ok := s.Key.(*ast.Ident); ok && key.Name != "_" && usesKeyAsValue(s.Body, info.Defs[key], types.ExprString(s.X)) {
+			return x.rangeIndex(s, key, after, ind, mustReturn)
+		}
+	}
 	var keyObj, valObj types.Object
 	if key, ok := s.Key.(*ast.Ident); ok && key.Name != "_" {
 		keyObj = info.Defs[key]
 	}
 	if s.Value != nil {
 		val, ok := s.Value.(*ast.Ident)
-		if !ok || keyObj != nil {
+		if !ok || (keyObj != nil && !isMap) {
 			fail(s, "range statement outside the subset")
 		}
-		valObj = info.Defs[val]
+		if val.Name != "_" {
+			valObj = info.Defs[val]
+		}
 	}
 	if keyObj == nil && valObj == nil {
 		fail(s, "range statement outside the subset")
 	}
+	if nested || x.recvObj == nil {
+		for _, kv := range []ast.Expr{s.Key, s.Value} {
+			if id, isId := kv.(*ast.Ident); isId && kv != nil && id.Name != "_" {
+				x.noShadow(id)
+			}
+		}
+	}
 	xs := x.expr(s.X)
-	x.loopSlice, x.loopKey, x.loopVal, x.loopElem, x.loopMap = types.ExprString(s.X), keyObj, valObj, "elem_", isMap
+	elem := "elem_"
+	if nested {
+		elem = fmt.Sprintf("elem%d_", len(x.outer)+1)
+	}
+	saved := loopSave{x.loopSlice, x.loopKey, x.loopVal, x.loopElem, x.loopMap, x.keyStores}
+	if nested {
+		x.outer = append(x.outer, saved)
+	}
+	x.loopSlice, x.loopKey, x.loopVal, x.loopElem, x.loopMap = types.ExprString(s.X), keyObj, valObj, elem, isMap
+	x.loopDepth++
 	oldNoImplicit := x.noImplicitReturn
 	x.noImplicitReturn = true
+	left := false
 	leave := func() {
-		x.loopSlice, x.loopKey, x.loopVal, x.loopElem, x.loopMap, x.noImplicitReturn = "", nil, nil, "", false, oldNoImplicit
+		if left {
+			return
+		}
+		left = true
+		x.loopDepth--
+		if nested {
+			x.outer = x.outer[:len(x.outer)-1]
+		}
+		x.loopSlice, x.loopKey, x.loopVal, x.loopElem, x.loopMap, x.noImplicitReturn = saved.slice, saved.key, saved.val, saved.elem, saved.isMap, oldNoImplicit
+		x.keyStores = saved.keyStores
 	}
 	defer leave()
 	body := s.Body.List
+	// a body that stores into the map it ranges over (at the key of the current entry only, see
+	// checkRangedStore) reads `m[k]` in the current state, not as the value the loop holds
+	x.keyStores = isMap && storesInto(body, types.ExprString(s.X))
+	vs := x.assignedOutside(body, s.Body)
+	// what is known about the variables the body assigns (on a path that reaches another
+	// iteration) does not hold when an iteration starts
+	{
+		vars, cont := map[string]bool{}, []string{}
+		x.assigned(continuing(body), vars)
+		for v := range vars {
+			cont = append(cont, v)
+		}
+		x.killNames(cont)
+	}
+	x.killPlaces(body)
 	if returns(body) {
 		// one `if c { return e }`: the first element satisfying c, if any
 		if len(body) == 1 {
 			if ifs, ok := body[0].(*ast.IfStmt); ok && ifs.Init == nil && ifs.Else == nil && len(ifs.Body.List) == 1 {
-				if ret, ok := ifs.Body.List[0].(*ast.ReturnStmt); ok && mustReturn {
+				if ret, ok := ifs.Body.List[0].(*ast.ReturnStmt); ok && mustReturn && x.exit == nil && !x.mayPanic(body) {
 					cond := x.expr(ifs.Cond)
 					back := x.facts()
 					found := x.block([]ast.Stmt{ret}, ind+"  ")
 					back()
 					leave()
 					rest := x.block(after, ind+"  ")
-					if strings.Contains(found, "elem_") {
-						return "match (" + xs + ").find? (fun elem_ => " + cond + ") with\n" + ind + "| some elem_ => " + found + "\n" + ind + "| none =>\n" + ind + "  " + rest
+					if strings.Contains(found, elem) {
+						return "match (" + xs + ").find? (fun " + elem + " => " + cond + ") with\n" + ind + "| some " + elem + " => " + found + "\n" + ind + "| none =>\n" + ind + "  " + rest
 					}
-					return "if (" + xs + ").any (fun elem_ => " + cond + ") then\n" + ind + "  " + found + "\n" + ind + "else\n" + ind + "  " + rest
+					return "if (" + xs + ").any (fun " + elem + " => " + cond + ") then\n" + ind + "  " + found + "\n" + ind + "else\n" + ind + "  " + rest
 				}
 			}
 		}
-		fail(s, "loop with a return outside the subset")
+		return x.foldLoop(s, "("+xs+")", elem, "", s.Body, vs, after, ind, mustReturn, leave)
 	}
-	vars := map[string]bool{}
-	x.assigned(body, vars)
-	vs := make([]string, 0, len(vars))
-	for v := range vars {
-		vs = append(vs, v)
+	if hasBranch(body, token.BREAK) || hasBranch(body, token.CONTINUE) || x.mayPanic(body) {
+		return x.foldLoop(s, "("+xs+")", elem, "", s.Body, vs, after, ind, mustReturn, leave)
 	}
-	sort.Strings(vs)
 	if len(vs) == 0 {
 		fail(s, "loop without effect")
 	}
 	back := x.facts()
+	oldExit := x.exit
+	x.exit = nil
 	step := x.assignOnly(body, vs, ind+"    ")
+	x.exit = oldExit
 	back()
 	if isMap && x.mutates(s.Body) {
 		// the body deletes from the map it ranges over (a store is rejected by effect): an
@@ -1498,11 +2394,167 @@ func (x *tr) rangeStmt(s *ast.RangeStmt, after []ast.Stmt, ind string, mustRetur
 		step = "if (GoMap.has " + x.expr(s.X) + " elem_.1) then\n" + ind + "      (" + strings.ReplaceAll(step, "\n", "\n  ") + ")\n" + ind + "    else\n" + ind + "      " + tuple(vs)
 	}
 	leave()
-	out := "let " + tuple(vs) + " := (" + xs + ").foldl (fun " + tuple(vs) + " elem_ =>\n" + ind + "    " + step + ") " + tuple(vs) + "\n" + ind
+	x.killNames(vs)
+	x.killPlaces(body)
+	out := "let " + tuple(vs) + " := (" + xs + ").foldl (fun " + tuple(vs) + " " + elem + " =>\n" + ind + "    " + step + ") " + tuple(vs) + "\n" + ind
 	if mustReturn {
 		return out + x.block(after, ind)
 	}
 	return out
+}
+
+// foldLoop renders a loop as a fold over the Lean list iter, binder naming the current element
+// (header: loops). The context of the loop (element names, index facts) is set by the caller and
+// undone by leave. guard, when not empty, is the loop condition that is evaluated again before
+// each iteration. The body is translated in block mode when it contains return (or a read that
+// may panic), break or continue: the state then carries brk' and ret' as needed.
+func (x *tr) foldLoop(s ast.Node, iter, binder, guard string, blk *ast.BlockStmt, vs []string, after []ast.Stmt, ind string, mustReturn bool, leave func()) string {
+	body := blk.List
+	ex := &exitCtx{vars: append([]string{}, vs...), depth: x.loopDepth}
+	ex.hasRet = returns(body) || x.mayPanic(body)
+	ex.hasBrk = hasBranch(body, token.BREAK)
+	blockMode := ex.hasRet || ex.hasBrk || hasBranch(body, token.CONTINUE)
+	if ex.hasRet && (x.recvObj != nil || x.resultLean == "" || !(mustReturn || x.exit != nil)) {
+		fail(s, "loop with a return outside the subset")
+	}
+	if blockMode && x.recvObj != nil {
+		fail(s, "loop with break or continue in a receiver-mutating method")
+	}
+	if !blockMode && len(vs) == 0 {
+		fail(s, "loop without effect")
+	}
+	oldExit, oldSwitch := x.exit, x.inSwitch
+	back := x.facts()
+	step := ""
+	if blockMode {
+		x.exit, x.inSwitch = ex, 0
+		step = x.block(body, ind+"      ")
+	} else {
+		x.exit = nil
+		if guard == "" {
+			step = x.assignOnly(body, vs, ind+"    ")
+		} else {
+			step = x.assignOnly(body, vs, ind+"      ")
+		}
+	}
+	x.exit, x.inSwitch = oldExit, oldSwitch
+	back()
+	leave()
+	x.killNames(vs)
+	x.killPlaces(body)
+	cur := stateTuple(ex, "brk'", "ret'")
+	lam := "fun " + cur + " " + binder + " =>\n"
+	if ex.hasRet {
+		lam += ind + "    match ret' with\n" + ind + "    | some _ => " + cur + "\n" + ind + "    | none =>\n"
+	}
+	if ex.hasBrk {
+		lam += ind + "      if brk' then " + cur + " else\n"
+	}
+	if guard != "" {
+		lam += ind + "      if !" + guard + " then " + cur + " else\n"
+	}
+	if !ex.hasRet && !ex.hasBrk && guard == "" {
+		lam += ind + "    " + strings.TrimLeft(step, " ")
+	} else {
+		lam += ind + "      " + step
+	}
+	out := "let " + cur + " := " + iter + ".foldl (" + lam + ") " + stateTuple(ex, "false", x.noRetOpt(ex)) + "\n" + ind
+	if !ex.hasRet {
+		if mustReturn {
+			return out + x.block(after, ind)
+		}
+		return out
+	}
+	found := "ret'"
+	if x.exit != nil {
+		found = x.exitState("false", "(some ret')") // the enclosing loop is left too
+	}
+	if !mustReturn {
+		fail(s, "loop with a return in a statement list that goes on")
+	}
+	return out + "match ret' with\n" + ind + "| some ret' => " + found + "\n" + ind + "| none =>\n" + ind + "  " + x.block(after, ind+"  ")
+}
+
+func (x *tr) noRetOpt(ex *exitCtx) string {
+	if ex.hasRet {
+		return x.noRet()
+	}
+	return ""
+}
+
+// hasBranch: the statements contain a break / continue that belongs to the loop whose body they
+// are (nested loops and switches are not entered)
+func hasBranch(stmts []ast.Stmt, tok token.Token) bool {
+	found := false
+	var walk func(n ast.Node) bool
+	walk = func(n ast.Node) bool {
+		switch v := n.(type) {
+		case *ast.ForStmt, *ast.RangeStmt, *ast.FuncLit:
+			return false
+		case *ast.SwitchStmt, *ast.TypeSwitchStmt, *ast.SelectStmt:
+			if tok == token.BREAK {
+				return false
+			}
+		case *ast.BranchStmt:
+			if v.Tok == tok && v.Label == nil {
+				found = true
+			}
+		}
+		return !found
+	}
+	for _, st := range stmts {
+		ast.Inspect(st, walk)
+	}
+	return found
+}
+
+// mayPanic: the statements contain a read that ends the function with a panic when out of range
+func (x *tr) mayPanic(stmts []ast.Stmt) bool {
+	if len(x.panicSites) == 0 {
+		return false
+	}
+	found := false
+	for _, st := range stmts {
+		ast.Inspect(st, func(n ast.Node) bool {
+			if n != nil && x.panicSites[n] {
+				found = true
+			}
+			return !found
+		})
+	}
+	return found
+}
+
+// assignedOutside: the variables assigned in the body of a loop that are declared outside it, sorted
+func (x *tr) assignedOutside(body []ast.Stmt, blk *ast.BlockStmt) []string {
+	vars := map[string]bool{}
+	x.assigned(body, vars)
+	in, out := map[string]bool{}, map[string]bool{}
+	for _, st := range body {
+		ast.Inspect(st, func(n ast.Node) bool {
+			if a, ok := n.(*ast.AssignStmt); ok && a.Tok != token.DEFINE {
+				for _, l := range a.Lhs {
+					if id, ok := l.(*ast.Ident); ok {
+						if obj := info.Uses[id]; obj != nil && obj.Pos() >= blk.Pos() && obj.Pos() <= blk.End() {
+							in[id.Name] = true
+						} else {
+							out[id.Name] = true
+						}
+					}
+				}
+			}
+			return true
+		})
+	}
+	vs := make([]string, 0, len(vars))
+	for v := range vars {
+		if in[v] && !out[v] {
+			continue
+		}
+		vs = append(vs, v)
+	}
+	sort.Strings(vs)
+	return vs
 }
 
 // indexLoop: `for i := range xs { ... }` over a slice reached from the receiver, whose body
@@ -1560,32 +2612,63 @@ func (x *tr) indexLoop(s *ast.RangeStmt, key *ast.Ident, after []ast.Stmt, ind s
 func (x *tr) joinIf(s *ast.IfStmt, els []ast.Stmt, vs []string, ind string) string {
 	cond := x.expr(s.Cond)
 	undo, back := x.assume(s.Cond), x.facts()
+	x.learn(s.Cond, true)
 	thenS := x.assignOnly(s.Body.List, vs, ind+"    ")
 	undo()
 	back()
+	x.learn(s.Cond, false)
 	elseS := x.assignOnly(els, vs, ind+"    ")
 	back()
+	x.killNames(vs)
+	x.killPlaces(s.Body.List, els)
 	return "let " + tuple(vs) + " := (if " + cond + " then\n" + ind + "    (" + thenS + ")\n" +
 		ind + "  else\n" + ind + "    (" + elseS + "))\n" + ind
 }
 
 func (x *tr) joinSwitch(conds []string, bodies [][]ast.Stmt, def []ast.Stmt, vs []string, ind string) string {
 	out := ""
+	ces := x.clauseExprs
 	back := x.facts()
 	for i := range conds {
+		x.learnCase(ces, i)
 		out += "if " + conds[i] + " then\n" + ind + "    (" + x.assignOnly(bodies[i], vs, ind+"    ") + ")\n" + ind + "  else "
 		back()
 	}
+	x.learnCase(ces, len(conds))
 	out += "(" + x.assignOnly(def, vs, ind+"    ") + ")"
 	back()
+	x.killNames(vs)
+	x.killPlaces(append(bodies, def)...)
 	return "let " + tuple(vs) + " := (" + out + ")\n" + ind
 }
 
 // ---------- functions ----------
 
+// function translates d; when a read whose range cannot be established is met (header: panics)
+// the translation starts again with that site recorded, until no new site appears.
 func (x *tr) function(target string, d *ast.FuncDecl) (out string, err string) {
+	x.panicSites = map[ast.Node]bool{}
+	for {
+		again := false
+		nGen := len(genOrder)
+		out, err, again = x.functionOnce(target, d)
+		if !again {
+			return out, err
+		}
+		for _, g := range genOrder[nGen:] {
+			delete(genStructs, g)
+		}
+		genOrder = genOrder[:nGen]
+	}
+}
+
+func (x *tr) functionOnce(target string, d *ast.FuncDecl) (out string, err string, again bool) {
 	defer func() {
 		if e := recover(); e != nil {
+			if _, isRestart := e.(restart); isRestart {
+				again = true
+				return
+			}
 			u, ok := e.(unsupported)
 			if !ok {
 				panic(e)
@@ -1594,9 +2677,44 @@ func (x *tr) function(target string, d *ast.FuncDecl) (out string, err string) {
 		}
 	}()
 	x.fn, x.recvObj, x.recvName, x.hasResult = d, nil, "", false
+	x.nilable = map[types.Object]bool{}
+	ast.Inspect(d.Body, func(n ast.Node) bool {
+		// header: nil slices - local slice variables that are assigned or compared with nil
+		mark := func(e, other ast.Expr) {
+			if id, ok := e.(*ast.Ident); ok && info.Types[other].IsNil() {
+				obj := info.Uses[id]
+				if obj == nil {
+					obj = info.Defs[id]
+				}
+				if v, isVar := obj.(*types.Var); isVar && !v.IsField() && v.Pos() > d.Body.Pos() {
+					if _, isSl := v.Type().Underlying().(*types.Slice); isSl {
+						x.nilable[obj] = true
+					}
+				}
+			}
+		}
+		switch v := n.(type) {
+		case *ast.AssignStmt:
+			if len(v.Lhs) == len(v.Rhs) {
+				for i := range v.Lhs {
+					mark(v.Lhs[i], v.Rhs[i])
+				}
+			}
+		case *ast.BinaryExpr:
+			if v.Op == token.EQL || v.Op == token.NEQ {
+				mark(v.X, v.Y)
+			}
+		}
+		return true
+	})
 	x.nonNil, x.nonNeg = map[string]bool{}, map[types.Object]bool{}
 	x.loopSlice, x.loopKey, x.loopVal, x.loopElem, x.loopMap = "", nil, nil, "", false
 	x.loopIndex, x.loopDirty, x.loopNoResize, x.noImplicitReturn = false, false, false, false
+	x.owned, x.ptrValue, x.extra, x.extraSeen = map[types.Object]int{}, map[types.Object]bool{}, nil, map[string]bool{}
+	x.unmarshals, x.results, x.resultLean, x.typedResults = map[*ast.CallExpr]int{}, nil, "", false
+	x.lenAtLeast, x.nonEmpty, x.errNil, x.guardedBy = map[string]int64{}, map[string]bool{}, map[types.Object]bool{}, map[types.Object]types.Object{}
+	x.outer, x.exit, x.loopDepth, x.inSwitch, x.parentSel = nil, nil, 0, 0, map[*ast.Ident]bool{}
+	x.idxVars, x.idxLt, x.idxPos, x.guarded, x.keyStores = map[types.Object]bool{}, map[string]map[types.Object]bool{}, map[types.Object]bool{}, map[ast.Node]bool{}, false
 	if x.mutating == nil {
 		x.mutating = map[string]bool{}
 	}
@@ -1620,7 +2738,15 @@ func (x *tr) function(target string, d *ast.FuncDecl) (out string, err string) {
 			return
 		}
 		for _, f := range fl.List {
-			t := leanType(info.Types[f.Type].Type, f)
+			ft := info.Types[f.Type].Type
+			if pt, isP := ft.(*types.Pointer); isP && fl == d.Recv && optionPointer(pt) {
+				// a pointer receiver is the value it points to
+				ft = pt.Elem()
+				for _, n := range f.Names {
+					x.ptrValue[info.Defs[n]] = true
+				}
+			}
+			t := leanType(ft, f)
 			for _, n := range f.Names {
 				params = append(params, "("+local(n.Name)+" : "+t+")")
 			}
@@ -1641,6 +2767,14 @@ func (x *tr) function(target string, d *ast.FuncDecl) (out string, err string) {
 				fail(d, "named results")
 			}
 			res = append(res, leanType(info.Types[f.Type].Type, f))
+			rt := info.Types[f.Type].Type
+			x.results = append(x.results, rt)
+			if pt, isP := rt.(*types.Pointer); (isP && optionPointer(pt)) || (x.recvObj == nil && len(d.Type.Results.List) > 1 && isError(f.Type)) {
+				x.typedResults = true
+			}
+		}
+		if x.recvObj == nil {
+			x.resultLean = strings.Join(res, " × ")
 		}
 	}
 	if x.recvObj != nil {
@@ -1655,8 +2789,9 @@ func (x *tr) function(target string, d *ast.FuncDecl) (out string, err string) {
 		x.recvObj = nil
 	}
 	pos := fset.Position(d.Pos())
+	params = append(params, x.extra...)
 	return fmt.Sprintf("/-- %s:%d `%s` -/\ndef %s %s : %s :=\n  %s\n", strings.TrimPrefix(pos.Filename, os.Args[1]+"/"), pos.Line, target,
-		leanName(target), strings.Join(params, " "), strings.Join(res, " × "), body), ""
+		leanName(target), strings.Join(params, " "), strings.Join(res, " × "), body), "", false
 }
 
 func main() {
@@ -1733,19 +2868,1410 @@ func main() {
 	fmt.Println("open Jsonapi")
 	fmt.Println()
 	x := &tr{translated: map[string]bool{}}
+	var buf strings.Builder
 	for _, t := range targets {
 		d := decls[t]
 		if d == nil {
-			fmt.Printf("/-- `%s` is no longer a function of the package -/\ndef %s_untranslated : String := \"missing\"\n\n", t, leanName(t))
+			fmt.Fprintf(&buf, "/-- `%s` is no longer a function of the package -/\ndef %s_untranslated : String := \"missing\"\n\n", t, leanName(t))
 			continue
 		}
+		nGen := len(genOrder)
 		out, why := x.function(t, d)
 		if why != "" {
-			fmt.Printf("/-- `%s` is outside the translated subset: %s -/\ndef %s_untranslated : String := %s\n\n", t, strings.ReplaceAll(why, "-/", "- /"), leanName(t), strconv.Quote(why))
+			for _, g := range genOrder[nGen:] { // structures met by a function that is not translated are not printed
+				delete(genStructs, g)
+			}
+			genOrder = genOrder[:nGen]
+			fmt.Fprintf(&buf, "/-- `%s` is outside the translated subset: %s -/\ndef %s_untranslated : String := %s\n\n", t, strings.ReplaceAll(why, "-/", "- /"), leanName(t), strconv.Quote(why))
 			continue
 		}
 		x.translated[leanName(t)] = true
-		fmt.Println(out)
+		fmt.Fprintln(&buf, out)
 	}
+	for _, name := range genOrder {
+		g := genStructs[name]
+		fmt.Printf("/-- %s `%s` -/\nstructure %s where\n", strings.TrimPrefix(g.pos, os.Args[1]+"/"), name, name)
+		for _, f := range g.fields {
+			fmt.Printf("  %s : %s\n", f.lean, leanType(f.t, nil))
+		}
+		fmt.Println()
+	}
+	fmt.Print(buf.String())
 	fmt.Println("end Jsonapi.Gen")
+}
+
+// ---------- typed expressions, facts of the path, delegated calls ----------
+
+// exprT translates e where a value of type want is expected: the untyped nil, a string or an
+// int stored into an `any`, an `Error` value used as an `error`, a local pointer to a structure.
+func (x *tr) exprT(e ast.Expr, want types.Type) string {
+	if want == nil {
+		return x.expr(e)
+	}
+	orig := e
+	for {
+		p, ok := e.(*ast.ParenExpr)
+		if !ok {
+			break
+		}
+		e = p.X
+	}
+	tv := info.Types[e]
+	if tv.IsNil() {
+		if types.Identical(want, types.Universe.Lookup("error").Type()) {
+			return "(Res.ok () : Res Unit)"
+		}
+		switch w := want.Underlying().(type) {
+		case *types.Pointer:
+			if optionPointer(w) {
+				return "(none : " + leanType(want, e) + ")"
+			}
+		case *types.Map, *types.Slice:
+			return "([] : " + leanType(want, e) + ")"
+		}
+		fail(e, "nil of type %s", want)
+	}
+	if types.Identical(want, types.Universe.Lookup("error").Type()) {
+		if n, ok := tv.Type.(*types.Named); ok && isPkgNamed(n, "Error") {
+			// a struct value converted to the interface `error`: never nil; the payload is not modelled
+			if call, isCall := e.(*ast.CallExpr); isCall {
+				for _, a := range call.Args {
+					x.expr(a) // must be inside the subset (no effect); the value is dropped
+				}
+				return "(Res.err : Res Unit)"
+			}
+			fail(e, "an Error value that is not a constructor call")
+		}
+		return x.exprAs(orig, true)
+	}
+	if it, ok := want.Underlying().(*types.Interface); ok && it.Empty() && tv.Type != nil {
+		if _, already := tv.Type.Underlying().(*types.Interface); !already {
+			switch {
+			case isString(tv.Type):
+				return "(PageVal.str " + x.expr(e) + ")"
+			case isInteger(tv.Type) && !isUnsigned(tv.Type):
+				return "(PageVal.int " + x.expr(e) + ")"
+			}
+			fail(e, "a value of type %s stored into an `any`", tv.Type)
+		}
+	}
+	if id, ok := e.(*ast.Ident); ok {
+		if obj := info.Uses[id]; obj != nil && x.owned[obj] == 2 {
+			if pt, isP := want.(*types.Pointer); isP && optionPointer(pt) {
+				return "(some " + local(id.Name) + ")"
+			}
+			fail(e, "the local pointer %s is used as a value", id.Name)
+		}
+	}
+	return x.expr(orig)
+}
+
+// kill forgets the facts that mention the assigned place (a variable, or a field reached by
+// selections: `url` kills what is known of `url.Fragments`, `url.IsCol` does not).
+func (x *tr) kill(lhs ast.Expr) {
+	e := lhs
+	for {
+		switch v := e.(type) {
+		case *ast.ParenExpr:
+			e = v.X
+			continue
+		case *ast.StarExpr:
+			e = v.X
+			continue
+		case *ast.IndexExpr:
+			e = v.X
+			continue
+		case *ast.UnaryExpr:
+			e = v.X
+			continue
+		}
+		break
+	}
+	path := e
+	for {
+		if sel, ok := path.(*ast.SelectorExpr); ok {
+			path = sel.X
+			continue
+		}
+		break
+	}
+	id, ok := path.(*ast.Ident)
+	if !ok {
+		x.lenAtLeast, x.nonEmpty, x.idxLt = map[string]int64{}, map[string]bool{}, map[string]map[types.Object]bool{}
+		return
+	}
+	t := types.ExprString(e)
+	for k := range x.idxLt {
+		if mentions(k, t) {
+			delete(x.idxLt, k)
+		}
+	}
+	for k := range x.lenAtLeast {
+		if mentions(k, t) {
+			delete(x.lenAtLeast, k)
+		}
+	}
+	for k := range x.nonEmpty {
+		if mentions(k, t) {
+			delete(x.nonEmpty, k)
+		}
+	}
+	if obj := info.Uses[id]; obj != nil && e == path {
+		delete(x.errNil, obj)
+	}
+}
+
+// mentions: the identifier occurs in the source text (as a whole word)
+func mentions(text, ident string) bool {
+	isWord := func(c byte) bool {
+		return c == '_' || (c >= '0' && c <= '9') || (c >= 'a' && c <= 'z') || (c >= 'A' && c <= 'Z')
+	}
+	for i := 0; i+len(ident) <= len(text); i++ {
+		if text[i:i+len(ident)] == ident && (i == 0 || !isWord(text[i-1])) && (i+len(ident) == len(text) || !isWord(text[i+len(ident)])) {
+			return true
+		}
+	}
+	return false
+}
+
+// pureText: the source text of e when e is an expression without effect whose value depends on
+// variables only (identifiers, selections, len, url.Values.Get), else "".
+func pureText(e ast.Expr) string {
+	ok := true
+	ast.Inspect(e, func(n ast.Node) bool {
+		switch v := n.(type) {
+		case nil, *ast.Ident, *ast.SelectorExpr, *ast.ParenExpr, *ast.BasicLit:
+		case *ast.CallExpr:
+			if sel, isSel := v.Fun.(*ast.SelectorExpr); !isSel || sel.Sel.Name != "Get" || !isValues(info.Types[sel.X].Type) {
+				ok = false
+			}
+		default:
+			ok = false
+		}
+		return ok
+	})
+	if !ok {
+		return ""
+	}
+	return types.ExprString(e)
+}
+
+func isValues(t types.Type) bool {
+	n, ok := t.(*types.Named)
+	return ok && n.Obj().Name() == "Values" && n.Obj().Pkg() != nil && n.Obj().Pkg().Path() == "net/url"
+}
+
+// lenArg: e is `len(T)`; the source text of T when T is pure
+func lenArg(e ast.Expr) string {
+	if p, ok := e.(*ast.ParenExpr); ok {
+		return lenArg(p.X)
+	}
+	call, ok := e.(*ast.CallExpr)
+	if !ok || len(call.Args) != 1 {
+		return ""
+	}
+	if id, isId := call.Fun.(*ast.Ident); !isId || id.Name != "len" {
+		return ""
+	} else if _, isB := info.Uses[id].(*types.Builtin); !isB {
+		return ""
+	}
+	return pureText(call.Args[0])
+}
+
+// learn records what the condition c tells when it is true (truth) or false (!truth); the
+// result undoes nothing: the caller restores the facts with x.facts().
+func (x *tr) learn(c ast.Expr, truth bool) {
+	switch b := c.(type) {
+	case *ast.ParenExpr:
+		x.learn(b.X, truth)
+	case *ast.UnaryExpr:
+		if b.Op == token.NOT {
+			x.learn(b.X, !truth)
+		}
+	case *ast.BinaryExpr:
+		if (b.Op == token.LAND && truth) || (b.Op == token.LOR && !truth) {
+			x.learn(b.X, truth)
+			x.learn(b.Y, truth)
+			return
+		}
+		op := b.Op
+		if !truth {
+			neg := map[token.Token]token.Token{token.EQL: token.NEQ, token.NEQ: token.EQL, token.LSS: token.GEQ, token.GEQ: token.LSS, token.GTR: token.LEQ, token.LEQ: token.GTR}
+			var known bool
+			if op, known = neg[op]; !known {
+				return
+			}
+		}
+		// i > 0 for an index variable
+		if id, ok := b.X.(*ast.Ident); ok && x.idxVars[info.Uses[id]] {
+			if tv := info.Types[b.Y]; tv.Value != nil && tv.Value.Kind() == constant.Int {
+				k, _ := constant.Int64Val(tv.Value)
+				if (op == token.GTR && k >= 0) || (op == token.GEQ && k >= 1) || (op == token.NEQ && k == 0) {
+					x.idxPos[info.Uses[id]] = true
+				}
+			}
+			return
+		}
+		// len(T) op k
+		if t := lenArg(b.X); t != "" {
+			if tv := info.Types[b.Y]; tv.Value != nil && tv.Value.Kind() == constant.Int {
+				k, exact := constant.Int64Val(tv.Value)
+				if !exact {
+					return
+				}
+				atLeast := int64(-1)
+				switch op {
+				case token.GEQ, token.EQL:
+					atLeast = k
+				case token.GTR:
+					atLeast = k + 1
+				case token.NEQ:
+					if k == 0 {
+						atLeast = 1
+					}
+				}
+				if atLeast > x.lenAtLeast[t] {
+					x.lenAtLeast[t] = atLeast
+				}
+				if atLeast >= 1 && isString(info.Types[b.X.(*ast.CallExpr).Args[0]].Type) {
+					x.nonEmpty[t] = true
+				}
+			}
+			return
+		}
+		// T != ""
+		if t := pureText(b.X); t != "" && isString(info.Types[b.X].Type) && op == token.NEQ {
+			if tv := info.Types[b.Y]; tv.Value != nil && tv.Value.Kind() == constant.String && constant.StringVal(tv.Value) == "" {
+				x.nonEmpty[t] = true
+				if x.lenAtLeast[t] < 1 {
+					x.lenAtLeast[t] = 1
+				}
+			}
+			return
+		}
+		// err == nil
+		if id, ok := b.X.(*ast.Ident); ok && op == token.EQL && info.Types[b.Y].IsNil() && isError(b.X) {
+			if obj := info.Uses[id]; obj != nil {
+				x.errNil[obj] = true
+			}
+		}
+	}
+}
+
+// addExtra declares a parameter of the translated function for a delegated call.
+func (x *tr) addExtra(name, typ string) string {
+	if !x.extraSeen[name] {
+		x.extraSeen[name] = true
+		x.extra = append(x.extra, "("+name+" : "+typ+")")
+	}
+	return name
+}
+
+// pkgCall: the call is `pkg.Name(…)` of an imported package
+func pkgCall(call *ast.CallExpr) string {
+	if sel, ok := call.Fun.(*ast.SelectorExpr); ok {
+		if pkg, ok := sel.X.(*ast.Ident); ok {
+			if pn, isPkg := info.Uses[pkg].(*types.PkgName); isPkg {
+				return pn.Imported().Path() + "." + sel.Sel.Name
+			}
+		}
+	}
+	return ""
+}
+
+// target: one left-hand side of an assignment with several results - a variable or a place
+// reached from a local structure; the result is the `let` line binding it to val.
+func (x *tr) target(l ast.Expr, define bool, val string) string {
+	if id, ok := l.(*ast.Ident); ok {
+		if id.Name == "_" {
+			return ""
+		}
+		if define && info.Defs[id] != nil {
+			x.noShadow(id)
+		} else if obj := info.Uses[id]; obj == nil || x.owned[obj] != 0 || (x.recvObj != nil && obj == x.recvObj) {
+			fail(l, "assignment to %s", id.Name)
+		}
+		x.kill(l)
+		return "let " + local(id.Name) + " := " + val
+	}
+	if !x.rooted(l) {
+		fail(l, "assignment to %s", types.ExprString(l))
+	}
+	if _, isIx := l.(*ast.IndexExpr); isIx {
+		fail(l, "assignment to an element")
+	}
+	p := x.place(l)
+	x.kill(l)
+	delete(x.nonNil, types.ExprString(l))
+	return p.put(val)
+}
+
+func joinLines(ind string, lines ...string) string {
+	out := []string{}
+	for _, l := range lines {
+		if l != "" {
+			out = append(out, l)
+		}
+	}
+	return strings.Join(out, "\n"+ind)
+}
+
+// multiAssign: `a, ok = m[k]`, `a, err = f(…)` (f translated, delegated, or strconv.Atoi) and
+// `err = json.Unmarshal([]byte(e), p)`.
+func (x *tr) multiAssign(s *ast.AssignStmt, ind string) (string, bool) {
+	if s.Tok != token.ASSIGN && s.Tok != token.DEFINE || len(s.Rhs) != 1 {
+		return "", false
+	}
+	define := s.Tok == token.DEFINE
+	if call, ok := s.Rhs[0].(*ast.CallExpr); ok && len(s.Lhs) == 1 && pkgCall(call) == "encoding/json.Unmarshal" {
+		c := x.unmarshal(call, ind)
+		return joinLines(ind, c, x.target(s.Lhs[0], define, "call'.2")), true
+	}
+	if len(s.Lhs) != 2 {
+		return "", false
+	}
+	switch r := s.Rhs[0].(type) {
+	case *ast.IndexExpr:
+		mt, isMap := info.Types[r.X].Type.Underlying().(*types.Map)
+		if !isMap || !isString(mt.Key()) {
+			return "", false
+		}
+		get := "(GoMap.get? " + x.expr(r.X) + " " + x.expr(r.Index) + ")"
+		return joinLines(ind, "let get' := "+get,
+			x.target(s.Lhs[0], define, "(get'.getD "+zeroOf(mt.Elem(), r)+")"),
+			x.target(s.Lhs[1], define, "get'.isSome")), true
+	case *ast.CallExpr:
+		if pkgCall(r) == "strconv.Atoi" && len(r.Args) == 1 {
+			// header: strconv.Atoi
+			v, isV := s.Lhs[0].(*ast.Ident)
+			e, isE := s.Lhs[1].(*ast.Ident)
+			if !isV || !isE || !define || info.Defs[v] == nil || info.Defs[e] == nil {
+				fail(s, "strconv.Atoi outside `n, err := strconv.Atoi(s)`")
+			}
+			x.guardedBy[info.Defs[v]] = info.Defs[e]
+			return joinLines(ind, "let atoi' := (parseInt 64 "+x.expr(r.Args[0])+")",
+				x.target(s.Lhs[0], define, "(atoi'.getD 0)"),
+				x.target(s.Lhs[1], define, "(if atoi'.isSome then (Res.ok () : Res Unit) else Res.err)")), true
+		}
+		tup, isTup := info.Types[r].Type.(*types.Tuple)
+		if !isTup || tup.Len() != 2 {
+			return "", false
+		}
+		callS := ""
+		if id, isId := r.Fun.(*ast.Ident); isId {
+			if fn, isFn := info.Uses[id].(*types.Func); isFn && fn.Pkg() != nil && fn.Pkg().Name() == "jsonapi" {
+				sig := fn.Type().(*types.Signature)
+				args := ""
+				for i, a := range r.Args {
+					args += " " + x.exprT(a, sig.Params().At(i).Type())
+				}
+				if x.translated[id.Name] {
+					callS = "(Gen." + id.Name + args + ")"
+				} else if delegatedFuncs[id.Name] {
+					// header: delegated calls
+					ts := []string{}
+					for i := 0; i < sig.Params().Len(); i++ {
+						ts = append(ts, leanType(sig.Params().At(i).Type(), r))
+					}
+					callS = "(" + x.addExtra(id.Name+"'", strings.Join(ts, " → ")+" → "+leanType(sig.Results(), r)) + args + ")"
+				}
+			}
+		}
+		if callS == "" {
+			return "", false
+		}
+		return joinLines(ind, "let call' := "+callS,
+			x.target(s.Lhs[0], define, "call'.1"),
+			x.target(s.Lhs[1], define, "call'.2")), true
+	}
+	return "", false
+}
+
+// functions of the package that are taken as parameters when they are outside the subset
+var delegatedFuncs = map[string]bool{"NewParams": true}
+
+// unmarshal: `json.Unmarshal([]byte(e), p)` with p = `&place` or a place of pointer type, the place
+// reached from a local structure. Binds call' to (new value of the target, error) and stores .1.
+func (x *tr) unmarshal(call *ast.CallExpr, ind string) string {
+	if len(call.Args) != 2 {
+		fail(call, "json.Unmarshal")
+	}
+	conv, ok := call.Args[0].(*ast.CallExpr)
+	if !ok || len(conv.Args) != 1 || !info.Types[conv.Fun].IsType() || !isString(info.Types[conv.Args[0]].Type) {
+		fail(call, "json.Unmarshal of something else than []byte(<string>)")
+	}
+	var tgt ast.Expr
+	if u, isU := call.Args[1].(*ast.UnaryExpr); isU && u.Op == token.AND {
+		tgt = u.X
+	} else if pt, isP := info.Types[call.Args[1]].Type.(*types.Pointer); isP && optionPointer(pt) {
+		tgt = call.Args[1]
+	}
+	if tgt == nil || !x.rooted(tgt) {
+		fail(call, "json.Unmarshal into something else than a place of a local structure")
+	}
+	n, seen := x.unmarshals[call]
+	if !seen {
+		n = len(x.unmarshals)
+		x.unmarshals[call] = n
+	}
+	t := leanType(info.Types[tgt].Type, call)
+	name := x.addExtra(fmt.Sprintf("unmarshal%d'", n), "GoString → "+t+" → "+t+" × Res Unit")
+	p := x.place(tgt)
+	line := "let call' := (" + name + " " + x.expr(conv.Args[0]) + " " + p.get + ")"
+	x.kill(tgt)
+	return line + "\n" + ind + p.put("call'.1")
+}
+
+// ownedWrites adds the local structures written in the statements to out.
+func (x *tr) ownedWrites(stmts []ast.Stmt, out map[string]bool) {
+	if len(x.owned) == 0 {
+		return
+	}
+	root := func(e ast.Expr) {
+		if _, isId := e.(*ast.Ident); isId || !x.rooted(e) {
+			return
+		}
+		for {
+			switch v := e.(type) {
+			case *ast.ParenExpr:
+				e = v.X
+				continue
+			case *ast.StarExpr:
+				e = v.X
+				continue
+			case *ast.SelectorExpr:
+				e = v.X
+				continue
+			case *ast.IndexExpr:
+				e = v.X
+				continue
+			}
+			break
+		}
+		if id, ok := e.(*ast.Ident); ok && info.Uses[id] != nil && x.owned[info.Uses[id]] != 0 {
+			out[id.Name] = true
+		}
+	}
+	for _, st := range stmts {
+		ast.Inspect(st, func(n ast.Node) bool {
+			switch v := n.(type) {
+			case *ast.AssignStmt:
+				for _, l := range v.Lhs {
+					root(l)
+				}
+			case *ast.CallExpr:
+				if pkgCall(v) == "encoding/json.Unmarshal" && len(v.Args) == 2 {
+					if u, isU := v.Args[1].(*ast.UnaryExpr); isU && u.Op == token.AND {
+						root(u.X)
+					} else {
+						root(v.Args[1])
+					}
+				}
+				if id, ok := v.Fun.(*ast.Ident); ok && (id.Name == "delete" || id.Name == "copy") && len(v.Args) > 0 {
+					root(v.Args[0])
+				}
+				if pkgCall(v) == "sort.Strings" && len(v.Args) == 1 {
+					root(v.Args[0])
+				}
+			}
+			return true
+		})
+	}
+}
+
+// checkOwned: the local v (declared with a composite literal of a generated structure) is only
+// used as the root of a selection or as a result of a return statement, so that no copy of it
+// and no second pointer to it exist.
+func (x *tr) checkOwned(obj types.Object, name string) {
+	var stack []ast.Node
+	ast.Inspect(x.fn.Body, func(n ast.Node) bool {
+		if n == nil {
+			stack = stack[:len(stack)-1]
+			return true
+		}
+		if id, ok := n.(*ast.Ident); ok && info.Uses[id] == obj {
+			parent := stack[len(stack)-1]
+			switch p := parent.(type) {
+			case *ast.SelectorExpr:
+				if p.X != ast.Expr(id) {
+					fail(id, "use of the local structure %s", name)
+				}
+				if _, isField := info.Uses[p.Sel].(*types.Var); !isField {
+					fail(id, "method call on the local structure %s", name)
+				}
+			case *ast.ReturnStmt:
+			default:
+				fail(id, "the local structure %s is used other than by selection or in a return", name)
+			}
+		}
+		stack = append(stack, n)
+		return true
+	})
+}
+
+// learnCase: inside case i of a switch without tag the conditions of the cases before it are
+// false and its own is true (i = number of cases: the default).
+func (x *tr) learnCase(ces []ast.Expr, i int) {
+	for j := 0; j < i && j < len(ces); j++ {
+		if ces[j] != nil {
+			x.learn(ces[j], false)
+		}
+	}
+	if i < len(ces) && ces[i] != nil {
+		x.learn(ces[i], true)
+	}
+}
+
+// killNames forgets the facts about the variables assigned in a branch or loop that has been joined.
+func (x *tr) killNames(vs []string) {
+	for _, v := range vs {
+		for k := range x.idxLt {
+			if mentions(k, v) {
+				delete(x.idxLt, k)
+			}
+		}
+		for k := range x.lenAtLeast {
+			if mentions(k, v) {
+				delete(x.lenAtLeast, k)
+			}
+		}
+		for k := range x.nonEmpty {
+			if mentions(k, v) {
+				delete(x.nonEmpty, k)
+			}
+		}
+		for o := range x.errNil {
+			if o.Name() == v {
+				delete(x.errNil, o)
+			}
+		}
+	}
+}
+
+// killPlaces forgets that a map is non-nil when the statements assign the place that holds it
+// (or a structure that contains it); a store into the map keeps it non-nil.
+func (x *tr) killPlaces(lists ...[]ast.Stmt) {
+	drop := func(e ast.Expr) {
+		t := types.ExprString(e)
+		for k := range x.nonNil {
+			if k == t || strings.HasPrefix(k, t+".") {
+				delete(x.nonNil, k)
+			}
+		}
+	}
+	for _, stmts := range lists {
+		for _, st := range stmts {
+			ast.Inspect(st, func(n ast.Node) bool {
+				switch v := n.(type) {
+				case *ast.AssignStmt:
+					for _, l := range v.Lhs {
+						if ix, isIx := l.(*ast.IndexExpr); isIx {
+							if _, isMap := info.Types[ix.X].Type.Underlying().(*types.Map); isMap {
+								continue
+							}
+						}
+						drop(l)
+					}
+				case *ast.CallExpr:
+					if pkgCall(v) == "encoding/json.Unmarshal" && len(v.Args) == 2 {
+						if u, isU := v.Args[1].(*ast.UnaryExpr); isU && u.Op == token.AND {
+							drop(u.X)
+						} else {
+							drop(v.Args[1])
+						}
+					}
+					if _, recv, isM := x.mutCall(v); isM {
+						drop(recv)
+					}
+				}
+				return true
+			})
+		}
+	}
+}
+
+// lenMinus: e is `len(of) - c` with a constant c >= 1; the result is c (0 otherwise)
+func lenMinus(e ast.Expr, of ast.Expr) int64 {
+	b, ok := e.(*ast.BinaryExpr)
+	if !ok || b.Op != token.SUB {
+		return 0
+	}
+	call, ok := b.X.(*ast.CallExpr)
+	if !ok || len(call.Args) != 1 || types.ExprString(call.Args[0]) != types.ExprString(of) {
+		return 0
+	}
+	if id, isId := call.Fun.(*ast.Ident); !isId || id.Name != "len" {
+		return 0
+	} else if _, isB := info.Uses[id].(*types.Builtin); !isB {
+		return 0
+	}
+	tv := info.Types[b.Y]
+	if tv.Value == nil || tv.Value.Kind() != constant.Int {
+		return 0
+	}
+	c, exact := constant.Int64Val(tv.Value)
+	if !exact || c < 1 {
+		return 0
+	}
+	return c
+}
+
+// methods of the standard library whose calls become parameters of the translated function
+var delegatedMethods = map[string]bool{"net/url.URL.Query": true}
+
+// recvValue: the receiver of a method call, as a value (a pointer receiver is the value it
+// points to; a pointer that may be nil is rejected)
+func (x *tr) recvValue(e ast.Expr) string {
+	if pt, isP := info.Types[e].Type.(*types.Pointer); isP && optionPointer(pt) && !x.isPtrValue(e) {
+		fail(e, "%s may be nil", types.ExprString(e))
+	}
+	return x.expr(e)
+}
+
+// splitInit: the statements `init; if c { … } else { … }` of an `if` with an init statement. A
+// variable declared by init must not hide one of an enclosing block (it would stay visible, in
+// the Lean rendering, after the `if`).
+func (x *tr) splitInit(s *ast.IfStmt) []ast.Stmt {
+	if as, ok := s.Init.(*ast.AssignStmt); ok && as.Tok == token.DEFINE {
+		for _, l := range as.Lhs {
+			if id, isId := l.(*ast.Ident); isId {
+				x.noShadow(id)
+			}
+		}
+	}
+	c := *s
+	c.Init = nil
+	return []ast.Stmt{s.Init, &c}
+}
+
+// nilTest: the condition of s is `p == nil` with p a pointer variable rendered as an Option
+func (x *tr) nilTest(s *ast.IfStmt) (*ast.Ident, bool) {
+	b, ok := s.Cond.(*ast.BinaryExpr)
+	if !ok || b.Op != token.EQL || !info.Types[b.Y].IsNil() {
+		return nil, false
+	}
+	id, ok := b.X.(*ast.Ident)
+	if !ok || info.Uses[id] == nil {
+		return nil, false
+	}
+	pt, isP := info.Uses[id].Type().(*types.Pointer)
+	if !isP || !optionPointer(pt) || x.ptrValue[info.Uses[id]] || x.owned[info.Uses[id]] != 0 {
+		return nil, false
+	}
+	// p is assigned nowhere in the function
+	assigned := false
+	ast.Inspect(x.fn.Body, func(n ast.Node) bool {
+		switch v := n.(type) {
+		case *ast.AssignStmt:
+			for _, l := range v.Lhs {
+				if li, isId := l.(*ast.Ident); isId && info.Uses[li] == info.Uses[id] {
+					assigned = true
+				}
+			}
+		case *ast.UnaryExpr:
+			if li, isId := v.X.(*ast.Ident); isId && v.Op == token.AND && info.Uses[li] == info.Uses[id] {
+				assigned = true
+			}
+		}
+		return true
+	})
+	return id, !assigned
+}
+
+// alwaysReturns: every path through the statements ends in a return
+func alwaysReturns(stmts []ast.Stmt) bool {
+	if len(stmts) == 0 {
+		return false
+	}
+	switch s := stmts[len(stmts)-1].(type) {
+	case *ast.ReturnStmt:
+		return true
+	case *ast.IfStmt:
+		return s.Else != nil && alwaysReturns(s.Body.List) && alwaysReturns(elseStmts(s.Else))
+	}
+	return false
+}
+
+// exitState: the value of one step of a loop in block mode - the carried variables, then
+// brk' (the loop has been left by `break`) and ret' (the function has returned) when the loop has them
+func (x *tr) exitState(brk, ret string) string {
+	return stateTuple(x.exit, brk, ret)
+}
+
+func stateTuple(ex *exitCtx, brk, ret string) string {
+	parts := []string{}
+	for _, v := range ex.vars {
+		parts = append(parts, local(v))
+	}
+	if ex.hasBrk {
+		parts = append(parts, brk)
+	}
+	if ex.hasRet {
+		parts = append(parts, ret)
+	}
+	if len(parts) == 1 {
+		return parts[0]
+	}
+	return "(" + strings.Join(parts, ", ") + ")"
+}
+
+func (x *tr) noRet() string { return "(none : Option (" + x.resultLean + "))" }
+
+// ---------- counting loops (header: counting loops) ----------
+
+// continuing: the statement lists of the body that can be followed by another iteration of the
+// loop - a block that ends in break or return is left out (what it assigns is not seen again)
+func continuing(stmts []ast.Stmt) []ast.Stmt {
+	if n := len(stmts); n > 0 {
+		switch l := stmts[n-1].(type) {
+		case *ast.ReturnStmt:
+			return nil
+		case *ast.BranchStmt:
+			if l.Tok == token.BREAK {
+				return nil
+			}
+		}
+	}
+	out := []ast.Stmt{}
+	for _, st := range stmts {
+		switch v := st.(type) {
+		case *ast.IfStmt:
+			c := *v
+			c.Body = &ast.BlockStmt{Lbrace: v.Body.Lbrace, List: continuing(v.Body.List), Rbrace: v.Body.Rbrace}
+			if v.Else != nil {
+				c.Else = &ast.BlockStmt{List: continuing(elseStmts(v.Else))}
+			}
+			out = append(out, &c)
+		case *ast.BlockStmt:
+			out = append(out, &ast.BlockStmt{List: continuing(v.List)})
+		default:
+			out = append(out, st)
+		}
+	}
+	return out
+}
+
+// touches: the statements may change the value of the expression with source text xtext (an
+// assignment, store, copy, sort, decode or receiver-mutating call on a place xtext mentions)
+func (x *tr) touches(stmts []ast.Stmt, xtext string) []ast.Node {
+	var hits []ast.Node
+	check := func(n ast.Node, target ast.Expr) {
+		e := target
+		for {
+			switch v := e.(type) {
+			case *ast.ParenExpr:
+				e = v.X
+				continue
+			case *ast.StarExpr:
+				e = v.X
+				continue
+			case *ast.UnaryExpr:
+				e = v.X
+				continue
+			}
+			break
+		}
+		t := types.ExprString(e)
+		if mentions(xtext, t) || strings.HasPrefix(t, xtext) {
+			hits = append(hits, n)
+			return
+		}
+		if ix, ok := e.(*ast.IndexExpr); ok { // a store into a map or slice changes the collection
+			if t := types.ExprString(ix.X); mentions(xtext, t) {
+				hits = append(hits, n)
+			}
+		}
+	}
+	for _, st := range stmts {
+		ast.Inspect(st, func(n ast.Node) bool {
+			switch v := n.(type) {
+			case *ast.AssignStmt:
+				for _, l := range v.Lhs {
+					if id, isId := l.(*ast.Ident); isId && v.Tok == token.DEFINE && info.Defs[id] != nil {
+						continue
+					}
+					check(v, l)
+				}
+			case *ast.IncDecStmt:
+				check(v, v.X)
+			case *ast.CallExpr:
+				if id, ok := v.Fun.(*ast.Ident); ok && (id.Name == "copy" || id.Name == "delete") && len(v.Args) > 0 {
+					check(v, v.Args[0])
+				}
+				if pc := pkgCall(v); (pc == "sort.Strings" || pc == "encoding/json.Unmarshal") && len(v.Args) > 0 {
+					check(v, v.Args[len(v.Args)-1])
+				}
+				if _, recv, isM := x.mutCall(v); isM {
+					check(v, recv)
+				}
+			}
+			return true
+		})
+	}
+	return hits
+}
+
+// shrinkBy: the assignment is `X = append(X[:a], X[b:]...)` with (a, b) = (i, i+1) or (i-1, i) for
+// the index variable i: X loses exactly one element (the bounds are checked where it is translated)
+func shrinkOne(n ast.Node, xtext string, idx types.Object) bool {
+	as, ok := n.(*ast.AssignStmt)
+	if !ok || as.Tok != token.ASSIGN || len(as.Lhs) != 1 || len(as.Rhs) != 1 || types.ExprString(as.Lhs[0]) != xtext {
+		return false
+	}
+	call, ok := as.Rhs[0].(*ast.CallExpr)
+	if !ok || len(call.Args) != 2 || !call.Ellipsis.IsValid() {
+		return false
+	}
+	if id, isId := call.Fun.(*ast.Ident); !isId || id.Name != "append" {
+		return false
+	}
+	lo, ok1 := call.Args[0].(*ast.SliceExpr)
+	hi, ok2 := call.Args[1].(*ast.SliceExpr)
+	if !ok1 || !ok2 || lo.Slice3 || hi.Slice3 || lo.Low != nil || lo.High == nil || hi.Low == nil || hi.High != nil ||
+		types.ExprString(lo.X) != xtext || types.ExprString(hi.X) != xtext {
+		return false
+	}
+	off := func(e ast.Expr) (int, bool) { // e = i + k
+		if id, isId := e.(*ast.Ident); isId && info.Uses[id] == idx {
+			return 0, true
+		}
+		if b, isB := e.(*ast.BinaryExpr); isB && (b.Op == token.ADD || b.Op == token.SUB) {
+			if id, isId := b.X.(*ast.Ident); isId && info.Uses[id] == idx {
+				if tv := info.Types[b.Y]; tv.Value != nil && tv.Value.ExactString() == "1" {
+					if b.Op == token.ADD {
+						return 1, true
+					}
+					return -1, true
+				}
+			}
+		}
+		return 0, false
+	}
+	a, okA := off(lo.High)
+	b, okB := off(hi.Low)
+	return okA && okB && b == a+1
+}
+
+// forStmt: the counting loops
+//
+//	for i := len(X) - 1; i >= 0; i-- { … }        (down)
+//	for i := 0; i < len(X); i++ { … }             (up)
+//	for j := i + 1; j < len(X); j++ { … }         (up, i an index variable of an enclosing loop over X)
+func (x *tr) forStmt(s *ast.ForStmt, after []ast.Stmt, ind string, mustReturn bool) string {
+	bad := func() { fail(s, "for statement outside the subset") }
+	init, ok := s.Init.(*ast.AssignStmt)
+	if !ok || init.Tok != token.DEFINE || len(init.Lhs) != 1 || len(init.Rhs) != 1 || s.Cond == nil || s.Post == nil {
+		bad()
+	}
+	iv, ok := init.Lhs[0].(*ast.Ident)
+	if !ok || info.Defs[iv] == nil {
+		bad()
+	}
+	idx := info.Defs[iv]
+	x.noShadow(iv)
+	post, ok := s.Post.(*ast.IncDecStmt)
+	if !ok {
+		bad()
+	}
+	if pid, isId := post.X.(*ast.Ident); !isId || info.Uses[pid] != idx {
+		bad()
+	}
+	cond, ok := s.Cond.(*ast.BinaryExpr)
+	if !ok {
+		bad()
+	}
+	if cid, isId := cond.X.(*ast.Ident); !isId || info.Uses[cid] != idx {
+		bad()
+	}
+	// the index variable is assigned nowhere in the body and its address is not taken
+	ast.Inspect(s.Body, func(n ast.Node) bool {
+		switch v := n.(type) {
+		case *ast.AssignStmt:
+			for _, l := range v.Lhs {
+				if id, isId := l.(*ast.Ident); isId && info.Uses[id] == idx {
+					bad()
+				}
+			}
+		case *ast.IncDecStmt:
+			if id, isId := v.X.(*ast.Ident); isId && info.Uses[id] == idx {
+				bad()
+			}
+		case *ast.UnaryExpr:
+			if id, isId := v.X.(*ast.Ident); isId && v.Op == token.AND && info.Uses[id] == idx {
+				bad()
+			}
+		}
+		return true
+	})
+	var X ast.Expr
+	down := false
+	start := "" // Lean Nat: the first index of an up loop
+	switch {
+	case post.Tok == token.DEC && cond.Op == token.GEQ:
+		// i := len(X) - 1; i >= 0; i--
+		if tv := info.Types[cond.Y]; tv.Value == nil || tv.Value.ExactString() != "0" {
+			bad()
+		}
+		b, isB := init.Rhs[0].(*ast.BinaryExpr)
+		if !isB || b.Op != token.SUB {
+			bad()
+		}
+		call, isCall := b.X.(*ast.CallExpr)
+		if !isCall || len(call.Args) != 1 || lenArgAny(call) == nil || lenMinus(init.Rhs[0], call.Args[0]) != 1 {
+			bad()
+		}
+		X, down = call.Args[0], true
+	case post.Tok == token.INC && cond.Op == token.LSS:
+		call, isCall := cond.Y.(*ast.CallExpr)
+		if !isCall || lenArgAny(call) == nil {
+			bad()
+		}
+		X = call.Args[0]
+		if tv := info.Types[init.Rhs[0]]; tv.Value != nil && tv.Value.ExactString() == "0" {
+			start = "0"
+		} else if b, isB := init.Rhs[0].(*ast.BinaryExpr); isB && b.Op == token.ADD {
+			id, isId := b.X.(*ast.Ident)
+			tv := info.Types[b.Y]
+			if !isId || !x.idxVars[info.Uses[id]] || tv.Value == nil || tv.Value.ExactString() != "1" {
+				bad()
+			}
+			start = "(" + local(id.Name) + " + 1)"
+		} else {
+			bad()
+		}
+	default:
+		bad()
+	}
+	if _, isSl := info.Types[X].Type.Underlying().(*types.Slice); !isSl {
+		bad()
+	}
+	xtext := types.ExprString(X)
+	xs := x.expr(X)
+	// how the body changes X
+	hits := x.touches(s.Body.List, xtext)
+	for _, h := range hits {
+		if !shrinkOne(h, xtext, idx) {
+			fail(h, "%s, which the loop counts over, is changed in another way than by removing one element", xtext)
+		}
+	}
+	if down && len(hits) > 1 {
+		fail(s, "%s is shortened more than once in an iteration of a loop that counts down", xtext)
+	}
+	if down && len(hits) == 1 {
+		// not inside a nested loop: at most once per iteration, so the index stays below the length
+		nestedLoop := false
+		ast.Inspect(s.Body, func(n ast.Node) bool {
+			switch v := n.(type) {
+			case *ast.ForStmt, *ast.RangeStmt:
+				ast.Inspect(v, func(m ast.Node) bool {
+					if m == hits[0] {
+						nestedLoop = true
+					}
+					return true
+				})
+			}
+			return true
+		})
+		if nestedLoop {
+			fail(s, "%s is shortened inside a nested loop of a loop that counts down", xtext)
+		}
+	}
+	iter, guard := "", ""
+	n := "(" + xs + ").length"
+	switch {
+	case down:
+		iter = "(List.range " + n + ").reverse"
+	case len(hits) == 0 && start == "0":
+		iter = "(List.range " + n + ")"
+	case len(hits) == 0:
+		iter = "(List.range' " + start + " (" + n + " - " + start + "))"
+	default:
+		// the length never grows and the index grows by one: at most `length at the start` iterations,
+		// the condition is evaluated again before each
+		if start != "0" {
+			bad()
+		}
+		iter = "(List.range " + n + ")"
+		guard = "(decide (" + local(iv.Name) + " < (" + xs + ").length))"
+	}
+	body := s.Body.List
+	vs := x.assignedOutside(body, s.Body)
+	cont := []string{}
+	{
+		vars := map[string]bool{}
+		x.assigned(continuing(body), vars)
+		for v := range vars {
+			cont = append(cont, v)
+		}
+	}
+	x.killNames(cont)
+	x.killPlaces(body)
+	x.loopDepth++
+	x.idxVars[idx] = true
+	if x.idxLt[xtext] == nil {
+		x.idxLt[xtext] = map[types.Object]bool{}
+	}
+	oldNoImplicit := x.noImplicitReturn
+	x.noImplicitReturn = true
+	left := false
+	leave := func() {
+		if left {
+			return
+		}
+		left = true
+		x.loopDepth--
+		x.noImplicitReturn = oldNoImplicit
+		delete(x.idxVars, idx)
+		delete(x.idxPos, idx)
+		for _, m := range x.idxLt {
+			delete(m, idx)
+		}
+	}
+	defer leave()
+	// at the start of an iteration the index is below the current length: the condition for an up
+	// loop; for a down loop i starts at len-1, loses one per iteration, and X at most one element
+	x.idxLt[xtext][idx] = true
+	return x.foldLoop(s, iter, local(iv.Name), guard, s.Body, vs, after, ind, mustReturn, leave)
+}
+
+// lenArgAny: call is `len(e)` (the builtin)
+func lenArgAny(call *ast.CallExpr) ast.Expr {
+	if id, isId := call.Fun.(*ast.Ident); isId && id.Name == "len" && len(call.Args) == 1 {
+		if _, isB := info.Uses[id].(*types.Builtin); isB {
+			return call.Args[0]
+		}
+	}
+	return nil
+}
+
+// natIndex: e is an index expression `i` or `i - 1` that is known to be in range for the slice
+// with source text xtext; the result is its Lean text (a Nat)
+func (x *tr) natIndex(e ast.Expr, xtext string) (string, bool) {
+	if id, ok := e.(*ast.Ident); ok {
+		if obj := info.Uses[id]; obj != nil && x.idxVars[obj] && x.idxLt[xtext][obj] {
+			return local(id.Name), true
+		}
+	}
+	if b, ok := e.(*ast.BinaryExpr); ok && b.Op == token.SUB {
+		if id, isId := b.X.(*ast.Ident); isId {
+			tv := info.Types[b.Y]
+			if obj := info.Uses[id]; obj != nil && x.idxVars[obj] && x.idxLt[xtext][obj] && x.idxPos[obj] && tv.Value != nil && tv.Value.ExactString() == "1" {
+				return "(" + local(id.Name) + " - 1)", true
+			}
+		}
+	}
+	return "", false
+}
+
+// natBound: e is a slice bound `i`, `i + 1` or `i - 1` that is known to be <= the length of the
+// slice with source text xtext
+func (x *tr) natBound(e ast.Expr, xtext string) (string, bool) {
+	if t, ok := x.natIndex(e, xtext); ok {
+		return t, true
+	}
+	if b, ok := e.(*ast.BinaryExpr); ok && b.Op == token.ADD {
+		if id, isId := b.X.(*ast.Ident); isId {
+			tv := info.Types[b.Y]
+			if obj := info.Uses[id]; obj != nil && x.idxVars[obj] && x.idxLt[xtext][obj] && tv.Value != nil && tv.Value.ExactString() == "1" {
+				return "(" + local(id.Name) + " + 1)", true
+			}
+		}
+	}
+	return "", false
+}
+
+// lenSum: e is built from `len(…)` of expressions of the subset, non-negative constants and `+`
+func lenSum(e ast.Expr) bool {
+	switch v := e.(type) {
+	case *ast.ParenExpr:
+		return lenSum(v.X)
+	case *ast.BinaryExpr:
+		return v.Op == token.ADD && lenSum(v.X) && lenSum(v.Y)
+	case *ast.CallExpr:
+		return lenArgAny(v) != nil && pureText(v.Args[0]) != ""
+	}
+	if tv := info.Types[e]; tv.Value != nil && tv.Value.Kind() == constant.Int && constant.Sign(tv.Value) >= 0 {
+		return true
+	}
+	return false
+}
+
+// store: the `let` line(s) that give the place lhs - a local variable, a place reached from the
+// receiver or a local structure, or an element `M[k]` of a map that is itself such a place - the
+// value val(current value)
+func (x *tr) store(lhs ast.Expr, val func(cur string) string) string {
+	switch l := lhs.(type) {
+	case *ast.ParenExpr:
+		return x.store(l.X, val)
+	case *ast.Ident:
+		obj := info.Uses[l]
+		if obj == nil {
+			break
+		}
+		if _, isVar := obj.(*types.Var); !isVar || x.idxVars[obj] || x.owned[obj] != 0 || (x.recvObj != nil && obj == x.recvObj) {
+			break
+		}
+		if x.nilable[obj] {
+			return "let " + local(l.Name) + " := (some " + val("("+local(l.Name)+".getD [])") + ")"
+		}
+		return "let " + local(l.Name) + " := " + val(local(l.Name))
+	case *ast.IndexExpr:
+		if mt, isMap := info.Types[l.X].Type.Underlying().(*types.Map); isMap && isString(mt.Key()) {
+			text := types.ExprString(l.X)
+			if x.rooted(l.X) && !x.nonNil[text] {
+				fail(lhs, "store into the map %s, which may be nil here", text)
+			}
+			x.checkRangedStore(l)
+			k := x.expr(l.Index)
+			zero := zeroOf(mt.Elem(), lhs)
+			return x.store(l.X, func(m string) string {
+				return "(GoMap.set " + m + " " + k + " " + val("((GoMap.get? "+m+" "+k+").getD "+zero+")") + ")"
+			})
+		}
+	case *ast.SelectorExpr:
+		if x.rooted(lhs) {
+			pl := x.place(lhs)
+			return pl.put(val(pl.get))
+		}
+	}
+	fail(lhs, "%s is not a place that can be assigned", types.ExprString(lhs))
+	return ""
+}
+
+// checkRangedStore: a store into a map that is being ranged over is accepted only at the key of
+// the current entry (the set of keys does not change)
+func (x *tr) checkRangedStore(ix *ast.IndexExpr) {
+	text := types.ExprString(ix.X)
+	atKey := func(key types.Object) bool {
+		id, ok := ix.Index.(*ast.Ident)
+		return ok && key != nil && info.Uses[id] == key
+	}
+	if x.loopMap && text == x.loopSlice && !atKey(x.loopKey) {
+		fail(ix, "store into the map being ranged over")
+	}
+	for _, o := range x.outer {
+		if o.isMap && text == o.slice && !atKey(o.key) {
+			fail(ix, "store into the map being ranged over")
+		}
+	}
+}
+
+// builtinStmt: the statements `copy(dst, src)` and `sort.Strings(xs)`
+func (x *tr) builtinStmt(st ast.Stmt, ind string) (string, bool) {
+	es, ok := st.(*ast.ExprStmt)
+	if !ok {
+		return "", false
+	}
+	call, ok := es.X.(*ast.CallExpr)
+	if !ok {
+		return "", false
+	}
+	if id, isId := call.Fun.(*ast.Ident); isId && id.Name == "copy" && len(call.Args) == 2 {
+		if _, isB := info.Uses[id].(*types.Builtin); isB {
+			if _, isSl := info.Types[call.Args[0]].Type.Underlying().(*types.Slice); !isSl {
+				fail(st, "copy into something else than a slice")
+			}
+			if _, isSl := info.Types[call.Args[1]].Type.Underlying().(*types.Slice); !isSl {
+				fail(st, "copy from something else than a slice")
+			}
+			src := x.expr(call.Args[1])
+			line := x.store(call.Args[0], func(cur string) string {
+				return "((" + src + ".take " + cur + ".length) ++ (" + cur + ".drop " + src + ".length))"
+			})
+			x.kill(call.Args[0])
+			return line, true
+		}
+	}
+	if pkgCall(call) == "sort.Strings" && len(call.Args) == 1 {
+		line := x.store(call.Args[0], func(cur string) string { return "(Typ.sortStrings " + cur + ")" })
+		return line, true
+	}
+	return "", false
+}
+
+// exits: the statements can leave the statement list they are in - by return, by a read that
+// panics, or (inside a loop in block mode) by break or continue
+func (x *tr) exits(stmts []ast.Stmt) bool {
+	return returns(stmts) || x.mayPanic(stmts) ||
+		(x.exit != nil && (hasBranch(stmts, token.BREAK) || hasBranch(stmts, token.CONTINUE)))
+}
+
+// rangeIndex: `for i := range X { … }` whose body uses i as a value (header: counting loops): i runs
+// over the indices X has when the loop starts; the body must leave X unchanged.
+func (x *tr) rangeIndex(s *ast.RangeStmt, key *ast.Ident, after []ast.Stmt, ind string, mustReturn bool) string {
+	idx := info.Defs[key]
+	x.noShadow(key)
+	xtext := types.ExprString(s.X)
+	if hits := x.touches(s.Body.List, xtext); len(hits) > 0 {
+		fail(hits[0], "%s, which the loop counts over, is changed in the loop", xtext)
+	}
+	ast.Inspect(s.Body, func(n ast.Node) bool {
+		switch v := n.(type) {
+		case *ast.AssignStmt:
+			for _, l := range v.Lhs {
+				if id, isId := l.(*ast.Ident); isId && info.Uses[id] == idx {
+					fail(v, "the loop index is assigned")
+				}
+			}
+		case *ast.IncDecStmt:
+			if id, isId := v.X.(*ast.Ident); isId && info.Uses[id] == idx {
+				fail(v, "the loop index is assigned")
+			}
+		case *ast.UnaryExpr:
+			if id, isId := v.X.(*ast.Ident); isId && v.Op == token.AND && info.Uses[id] == idx {
+				fail(v, "address of the loop index")
+			}
+		}
+		return true
+	})
+	iter := "(List.range (" + x.expr(s.X) + ").length)"
+	body := s.Body.List
+	vs := x.assignedOutside(body, s.Body)
+	{
+		vars, cont := map[string]bool{}, []string{}
+		x.assigned(continuing(body), vars)
+		for v := range vars {
+			cont = append(cont, v)
+		}
+		x.killNames(cont)
+	}
+	x.killPlaces(body)
+	x.loopDepth++
+	x.idxVars[idx] = true
+	if x.idxLt[xtext] == nil {
+		x.idxLt[xtext] = map[types.Object]bool{}
+	}
+	x.idxLt[xtext][idx] = true
+	oldNoImplicit := x.noImplicitReturn
+	x.noImplicitReturn = true
+	left := false
+	leave := func() {
+		if left {
+			return
+		}
+		left = true
+		x.loopDepth--
+		x.noImplicitReturn = oldNoImplicit
+		delete(x.idxVars, idx)
+		delete(x.idxPos, idx)
+		for _, m := range x.idxLt {
+			delete(m, idx)
+		}
+	}
+	defer leave()
+	return x.foldLoop(s, iter, local(key.Name), "", s.Body, vs, after, ind, mustReturn, leave)
+}
+
+type guard struct {
+	site ast.Node
+	cond string
+}
+
+// guardsOf: the reads of the statement's own expressions (not of the statements nested in it) that
+// end the function with a panic when out of range, each with the condition under which it is in
+// range. A site under the right operand of && or || is rejected (it is not always evaluated).
+func (x *tr) guardsOf(st ast.Stmt) []guard {
+	if len(x.panicSites) == 0 {
+		return nil
+	}
+	var heads []ast.Expr
+	switch s := st.(type) {
+	case *ast.IfStmt:
+		if s.Init == nil {
+			heads = append(heads, s.Cond)
+		}
+	case *ast.AssignStmt:
+		heads = append(heads, s.Rhs...)
+		for _, l := range s.Lhs {
+			if _, isId := l.(*ast.Ident); !isId {
+				heads = append(heads, l)
+			}
+		}
+	case *ast.ReturnStmt:
+		heads = append(heads, s.Results...)
+	case *ast.ExprStmt:
+		heads = append(heads, s.X)
+	case *ast.RangeStmt:
+		heads = append(heads, s.X)
+	case *ast.SwitchStmt:
+		if s.Tag != nil {
+			heads = append(heads, s.Tag)
+		}
+	}
+	var out []guard
+	for _, h := range heads {
+		var stack []ast.Node
+		ast.Inspect(h, func(n ast.Node) bool {
+			if n == nil {
+				stack = stack[:len(stack)-1]
+				return true
+			}
+			if x.panicSites[n] && !x.guarded[n] {
+				for i := 0; i+1 <= len(stack); i++ {
+					if b, ok := stack[i].(*ast.BinaryExpr); ok && (b.Op == token.LAND || b.Op == token.LOR) {
+						next := n
+						if i+1 < len(stack) {
+							next = stack[i+1]
+						}
+						if next == ast.Node(b.Y) {
+							fail(n, "a read that may panic in the right operand of %s", b.Op)
+						}
+					}
+				}
+				ix := n.(*ast.IndexExpr)
+				k, _ := constant.Int64Val(info.Types[ix.Index].Value)
+				out = append(out, guard{n, fmt.Sprintf("(decide (%d < (%s).length))", k, x.expr(ix.X))})
+			}
+			stack = append(stack, n)
+			return true
+		})
+	}
+	return out
+}
+
+// panicValue: what the function returns when it panics - the zero value of every result and
+// `Res.panic` for the error (the last result)
+func (x *tr) panicValue(at ast.Node) string {
+	if x.recvObj != nil || len(x.results) == 0 || !types.Identical(x.results[len(x.results)-1], types.Universe.Lookup("error").Type()) {
+		fail(at, "a read that may panic in a function whose last result is not an error")
+	}
+	parts := []string{}
+	for _, r := range x.results[:len(x.results)-1] {
+		parts = append(parts, zeroOf(r, at))
+	}
+	parts = append(parts, "(Res.panic : Res Unit)")
+	if len(parts) == 1 {
+		return parts[0]
+	}
+	return "(" + strings.Join(parts, ", ") + ")"
+}
+
+// storesInto: the statements store into an element of the map with source text mtext
+// (`m[k] = v`, `copy(m[k], …)`, `sort.Strings(m[k])`)
+func storesInto(stmts []ast.Stmt, mtext string) bool {
+	found := false
+	elem := func(e ast.Expr) {
+		if ix, ok := e.(*ast.IndexExpr); ok && types.ExprString(ix.X) == mtext {
+			found = true
+		}
+	}
+	for _, st := range stmts {
+		ast.Inspect(st, func(n ast.Node) bool {
+			switch v := n.(type) {
+			case *ast.AssignStmt:
+				for _, l := range v.Lhs {
+					elem(l)
+				}
+			case *ast.CallExpr:
+				if id, ok := v.Fun.(*ast.Ident); ok && id.Name == "copy" && len(v.Args) > 0 {
+					elem(v.Args[0])
+				}
+				if pkgCall(v) == "sort.Strings" && len(v.Args) == 1 {
+					elem(v.Args[0])
+				}
+			}
+			return !found
+		})
+	}
+	return found
 }
